@@ -8,6 +8,8 @@ import Bee2V.C05.ModelBits
 import Mathlib.Tactic.Ring
 import Mathlib.Tactic.Linarith
 import Mathlib.Tactic.NormNum
+import Mathlib.Tactic.SplitIfs
+import Mathlib.Data.ZMod.Basic
 namespace Bee2V.C05
 
 theorem testBit_val {w : Nat} (hw : 0 < w) : ∀ (a : List Nat), Wf w a → ∀ k,
@@ -130,5 +132,1690 @@ theorem wwGetBits_val {w : Nat} (hw : 0 < w) (a : List Nat) (pos width : Nat) (h
         have : ¬ j < w := by omega
         simp [this]
       · rw [tb_div, testBit_high han (by omega)]
+
+theorem getD_set (a : List Nat) (i j x : Nat) :
+    (a.set i x).getD j 0 = if j = i ∧ i < a.length then x else a.getD j 0 := by
+  simp only [List.getD_eq_getElem?_getD, List.getElem?_set]
+  by_cases h : i = j
+  · subst h
+    by_cases h2 : i < a.length
+    · simp [h2]
+    · simp [h2, List.getElem?_eq_none (Nat.le_of_not_lt h2)]
+  · have : ¬ j = i := fun e => h e.symm
+    simp [h, this]
+
+theorem Wf_set {w : Nat} {a : List Nat} (h : Wf w a) (i x : Nat) (hx : x < 2 ^ w) :
+    Wf w (a.set i x) := by
+  intro y hy
+  rcases List.mem_or_eq_of_mem_set hy with h1 | h1
+  · exact h y h1
+  · rw [h1]; exact hx
+
+/-- bit-level description ⇒ arithmetic description of replacing a bit field -/
+theorem field_replace (X Y p wd f : Nat)
+    (h : ∀ k, Y.testBit k = if p ≤ k ∧ k < p + wd then f.testBit (k - p) else X.testBit k) :
+    Y + ((X / 2 ^ p) % 2 ^ wd) * 2 ^ p = X + (f % 2 ^ wd) * 2 ^ p := by
+  have dec : ∀ Z : Nat, Z = Z % 2 ^ p + 2 ^ p * ((Z / 2 ^ p) % 2 ^ wd)
+      + 2 ^ p * (2 ^ wd * (Z / 2 ^ (p + wd))) := by
+    intro Z
+    have h1 := Nat.mod_add_div Z (2 ^ p)
+    have h2 := Nat.mod_add_div (Z / 2 ^ p) (2 ^ wd)
+    have h3 : Z / 2 ^ p / 2 ^ wd = Z / 2 ^ (p + wd) := by
+      rw [Nat.div_div_eq_div_mul, Nat.pow_add]
+    rw [h3] at h2
+    calc Z = Z % 2 ^ p + 2 ^ p * (Z / 2 ^ p) := h1.symm
+      _ = Z % 2 ^ p + 2 ^ p * ((Z / 2 ^ p) % 2 ^ wd + 2 ^ wd * (Z / 2 ^ (p + wd))) := by rw [h2]
+      _ = _ := by ring
+  have e1 : Y % 2 ^ p = X % 2 ^ p := by
+    apply Nat.eq_of_testBit_eq; intro k
+    rw [Nat.testBit_mod_two_pow, Nat.testBit_mod_two_pow, h k]
+    by_cases hk : k < p
+    · have : ¬ (p ≤ k ∧ k < p + wd) := by omega
+      simp [this]
+    · simp [hk]
+  have e2 : (Y / 2 ^ p) % 2 ^ wd = f % 2 ^ wd := by
+    apply Nat.eq_of_testBit_eq; intro k
+    rw [Nat.testBit_mod_two_pow, Nat.testBit_mod_two_pow, tb_div, h (p + k)]
+    by_cases hk : k < wd
+    · have : (p ≤ p + k ∧ p + k < p + wd) := by omega
+      simp [this, hk]
+    · simp [hk]
+  have e3 : Y / 2 ^ (p + wd) = X / 2 ^ (p + wd) := by
+    apply Nat.eq_of_testBit_eq; intro k
+    rw [tb_div, tb_div, h (p + wd + k)]
+    have : ¬ (p ≤ p + wd + k ∧ p + wd + k < p + wd) := by omega
+    simp [this]
+  have dY := dec Y
+  have dX := dec X
+  rw [e1, e2, e3] at dY
+  generalize X % 2 ^ p = A at *
+  generalize 2 ^ p * (2 ^ wd * (X / 2 ^ (p + wd))) = C at *
+  generalize hF : (X / 2 ^ p) % 2 ^ wd = F at *
+  generalize hG : f % 2 ^ wd = G at *
+  rw [Nat.mul_comm F, Nat.mul_comm G]
+  omega
+
+
+theorem testBit_wnot (w y j : Nat) :
+    (wnot w y).testBit j = (decide (j < w) && !y.testBit j) := by
+  unfold wnot
+  have h1 : y % 2 ^ w < 2 ^ w := Nat.mod_lt _ (Nat.two_pow_pos w)
+  have h2 : 2 ^ w - 1 - y % 2 ^ w = 2 ^ w - (y % 2 ^ w + 1) := by omega
+  rw [h2, Nat.testBit_two_pow_sub_succ h1, Nat.testBit_mod_two_pow]
+  by_cases hj : j < w <;> simp [hj]
+
+theorem wnot_lt (w y : Nat) : wnot w y < 2 ^ w := by
+  unfold wnot
+  have := Nat.two_pow_pos w
+  omega
+
+theorem smask_eq {w width : Nat} (hwd : width ≤ w) :
+    (if width < w then wshr (wshl w (2 ^ w - 1) (w - width)) (w - width) else 2 ^ w - 1)
+      = 2 ^ width - 1 := by
+  split
+  · rename_i hlt
+    apply Nat.eq_of_testBit_eq; intro j
+    rw [tb_div, testBit_wshl, Nat.testBit_two_pow_sub_one, Nat.testBit_two_pow_sub_one]
+    by_cases hj : j < width
+    · have h1 : w - width + j < w := by omega
+      have h2 : w - width ≤ w - width + j := by omega
+      have h3 : w - width + j - (w - width) < w := by omega
+      have h4 : j < w := by omega
+      simp [h1, h2, h4, hj]
+    · have h1 : ¬ (w - width + j < w) := by omega
+      simp [h1, hj]
+  · have : width = w := by omega
+    rw [this]
+
+theorem and_mask (v width : Nat) : v &&& (2 ^ width - 1) = v % 2 ^ width :=
+  Nat.and_two_pow_sub_one_eq_mod v width
+
+theorem wwSetBits_bits {w : Nat} (hw : 0 < w) (a : List Nat) (pos width v : Nat)
+    (hwd : width ≤ w) (h0 : 0 < width) (hres : pos + width ≤ w * a.length) (h : Wf w a) :
+    (wwSetBits w a pos width v).length = a.length ∧ Wf w (wwSetBits w a pos width v) ∧
+    ∀ k, (val w (wwSetBits w a pos width v)).testBit k =
+      if pos ≤ k ∧ k < pos + width then v.testBit (k - pos) else (val w a).testBit k := by
+  have hp : pos % w < w := Nat.mod_lt _ hw
+  have hpos : pos = w * (pos / w) + pos % w := (Nat.div_add_mod pos w).symm
+  generalize hn : pos / w = n at hpos
+  generalize hpp : pos % w = p at hpos hp
+  have hnl : n < a.length := by
+    by_contra hc
+    have : w * a.length ≤ w * n := Nat.mul_le_mul_left w (Nat.le_of_not_lt hc)
+    omega
+  unfold wwSetBits
+  simp only [hn, hpp, smask_eq hwd, and_mask]
+  generalize hA : ((a.getD n 0 &&& wnot w (wshl w (2 ^ width - 1) p)) ^^^ wshl w (v % 2 ^ width) p) = A
+  generalize hA1 : ((a.getD (n + 1) 0 &&& wnot w (wshr (2 ^ width - 1) (w - p))) ^^^
+      wshr (v % 2 ^ width) (w - p)) = A1
+  have han := getD_lt h n
+  have han1 := getD_lt h (n + 1)
+  have hAlt : A < 2 ^ w := by
+    rw [← hA]
+    exact Nat.xor_lt_two_pow (Nat.and_lt_two_pow _ (wnot_lt _ _)) (Nat.mod_lt _ (Nat.two_pow_pos w))
+  have hA1lt : A1 < 2 ^ w := by
+    rw [← hA1]
+    refine Nat.xor_lt_two_pow (Nat.and_lt_two_pow _ (wnot_lt _ _)) ?_
+    have h1 : v % 2 ^ width < 2 ^ width := Nat.mod_lt _ (Nat.two_pow_pos _)
+    have h2 : 2 ^ width ≤ 2 ^ w := Nat.pow_le_pow_right (by decide) hwd
+    exact Nat.lt_of_le_of_lt (Nat.div_le_self _ _) (by omega)
+  -- bits of the new words
+  have bA : ∀ j, j < w → A.testBit j =
+      if p ≤ j ∧ j < p + width then v.testBit (j - p) else (a.getD n 0).testBit j := by
+    intro j hj
+    rw [← hA, Nat.testBit_xor, Nat.testBit_and, testBit_wnot, testBit_wshl, testBit_wshl,
+      Nat.testBit_two_pow_sub_one, Nat.testBit_mod_two_pow]
+    by_cases c1 : p ≤ j
+    · by_cases c2 : j < p + width
+      · have c3 : j - p < width := by omega
+        simp [hj, c1, c2, c3]
+      · have c3 : ¬ j - p < width := by omega
+        simp [hj, c1, c2, c3]
+    · simp [hj, c1]
+  have bA1 : ∀ j, j < w → A1.testBit j =
+      if w + j < p + width then v.testBit (w - p + j) else (a.getD (n + 1) 0).testBit j := by
+    intro j hj
+    rw [← hA1, Nat.testBit_xor, Nat.testBit_and, testBit_wnot, tb_div, tb_div,
+      Nat.testBit_two_pow_sub_one, Nat.testBit_mod_two_pow]
+    by_cases c2 : w + j < p + width
+    · have c3 : w - p + j < width := by omega
+      simp [hj, c2, c3]
+    · have c3 : ¬ w - p + j < width := by omega
+      simp [hj, c2, c3]
+  -- bits of the result, given its words
+  have fin : ∀ R : List Nat, Wf w R →
+      (∀ i, R.getD i 0 = if i = n then A else
+        if i = n + 1 ∧ p + width > w then A1 else a.getD i 0) →
+      ∀ k, (val w R).testBit k =
+        if pos ≤ k ∧ k < pos + width then v.testBit (k - pos) else (val w a).testBit k := by
+    intro R hR hget k
+    rw [testBit_val hw R hR, testBit_val hw a h, hget]
+    have hj : k % w < w := Nat.mod_lt _ hw
+    have hk : k = w * (k / w) + k % w := (Nat.div_add_mod k w).symm
+    generalize k / w = i at hk
+    generalize k % w = j at hk hj
+    by_cases c1 : i = n
+    · subst c1
+      rw [if_pos rfl, bA j hj]
+      have e : k - pos = j - p := by omega
+      have e2 : (pos ≤ k ∧ k < pos + width) ↔ (p ≤ j ∧ j < p + width) := by omega
+      simp only [e, e2]
+    · rw [if_neg c1]
+      by_cases c2 : i = n + 1
+      · subst c2
+        have hk' : k = w * n + w + j := by rw [hk, Nat.mul_add, Nat.mul_one]
+        by_cases c3 : p + width > w
+        · rw [if_pos ⟨rfl, c3⟩, bA1 j hj]
+          have e : k - pos = w - p + j := by omega
+          have e2 : (pos ≤ k ∧ k < pos + width) ↔ (w + j < p + width) := by omega
+          simp only [e, e2]
+        · have c4 : ¬ (n + 1 = n + 1 ∧ p + width > w) := fun hh => c3 hh.2
+          have e2 : ¬ (pos ≤ k ∧ k < pos + width) := by omega
+          rw [if_neg c4, if_neg e2]
+      · have c4 : ¬ (i = n + 1 ∧ p + width > w) := fun hh => c2 hh.1
+        rw [if_neg c4]
+        have e2 : ¬ (pos ≤ k ∧ k < pos + width) := by
+          rcases Nat.lt_or_gt_of_ne c1 with c5 | c5
+          · have : w * (i + 1) ≤ w * n := Nat.mul_le_mul_left w c5
+            rw [Nat.mul_add] at this
+            omega
+          · have : w * (n + 2) ≤ w * i := Nat.mul_le_mul_left w (by omega)
+            rw [Nat.mul_add] at this
+            omega
+        rw [if_neg e2]
+  have hX : a.getD n 0 &&& wnot w (wshl w (2 ^ width - 1) p) < 2 ^ w :=
+    Nat.and_lt_two_pow _ (wnot_lt _ _)
+  have hY : a.getD (n + 1) 0 &&& wnot w (wshr (2 ^ width - 1) (w - p)) < 2 ^ w :=
+    Nat.and_lt_two_pow _ (wnot_lt _ _)
+  by_cases hst : p + width > w
+  · -- the field straddles the boundary between a[n] and a[n + 1]
+    have hn1l : n + 1 < a.length := by
+      by_contra hc
+      have : w * a.length ≤ w * (n + 1) := Nat.mul_le_mul_left w (Nat.le_of_not_lt hc)
+      rw [Nat.mul_add] at this
+      omega
+    simp only [hst, if_true, getD_set, List.length_set, hnl, hn1l, and_self, and_true, if_true,
+      Nat.succ_ne_self, if_false, hA, hA1, true_and]
+    have hWf := Wf_set (Wf_set (Wf_set (Wf_set h n _ hX) n _ hAlt) (n + 1) _ hY) (n + 1) _ hA1lt
+    refine ⟨hWf, fin _ hWf ?_⟩
+    intro i
+    simp only [getD_set, List.length_set, hnl, hn1l, and_true, hst]
+    by_cases c1 : i = n
+    · subst c1; simp
+    · by_cases c2 : i = n + 1
+      · subst c2; simp
+      · simp [c1, c2]
+  · simp only [hst, if_false, getD_set, List.length_set, hnl, and_self, and_true, if_true, hA,
+      true_and]
+    have hWf := Wf_set (Wf_set h n _ hX) n _ hAlt
+    refine ⟨hWf, fin _ hWf ?_⟩
+    intro i
+    simp only [getD_set, List.length_set, hnl, and_true, hst, and_false, if_false]
+    by_cases c1 : i = n
+    · subst c1; simp
+    · simp [c1]
+
+
+theorem wwSetBits_val {w : Nat} (hw : 0 < w) (a : List Nat) (pos width v : Nat)
+    (hwd : width ≤ w) (h0 : 0 < width) (hres : pos + width ≤ w * a.length) (h : Wf w a) :
+    (wwSetBits w a pos width v).length = a.length ∧ Wf w (wwSetBits w a pos width v) ∧
+    val w (wwSetBits w a pos width v) + ((val w a / 2 ^ pos) % 2 ^ width) * 2 ^ pos
+      = val w a + (v % 2 ^ width) * 2 ^ pos := by
+  obtain ⟨h1, h2, h3⟩ := wwSetBits_bits hw a pos width v hwd h0 hres h
+  exact ⟨h1, h2, field_replace _ _ _ _ _ h3⟩
+
+/-- replacing one word -/
+theorem set_word_bits {w : Nat} (hw : 0 < w) (a : List Nat) (h : Wf w a) (n A : Nat)
+    (hnl : n < a.length) (hA : A < 2 ^ w) :
+    Wf w (a.set n A) ∧ ∀ k, (val w (a.set n A)).testBit k =
+      if k / w = n then A.testBit (k % w) else (val w a).testBit k := by
+  have hWf := Wf_set h n A hA
+  refine ⟨hWf, fun k => ?_⟩
+  rw [testBit_val hw _ hWf, testBit_val hw a h, getD_set]
+  by_cases c : k / w = n
+  · simp [c, hnl]
+  · simp [c]
+
+theorem pos_split {w : Nat} (hw : 0 < w) (pos k : Nat) :
+    (k = pos) ↔ (k / w = pos / w ∧ k % w = pos % w) := by
+  constructor
+  · intro e; rw [e]; exact ⟨rfl, rfl⟩
+  · intro ⟨e1, e2⟩
+    rw [← Nat.div_add_mod k w, ← Nat.div_add_mod pos w, e1, e2]
+
+theorem wbit_eq {w p : Nat} (hp : p < w) : wbit w p = 2 ^ p := by
+  unfold wbit wshl
+  rw [Nat.one_mul, Nat.mod_eq_of_lt (Nat.pow_lt_pow_right (by decide) hp)]
+
+theorem pos_word_lt {w : Nat} {a : List Nat} {pos : Nat} (hres : pos < w * a.length) :
+    pos / w < a.length := by
+  by_contra hc
+  have h1 : w * a.length ≤ w * (pos / w) := Nat.mul_le_mul_left w (Nat.le_of_not_lt hc)
+  have h2 := Nat.mul_div_le pos w
+  omega
+
+theorem and_two_pow' (x p : Nat) : x &&& 2 ^ p = bif x.testBit p then 2 ^ p else 0 := by
+  apply Nat.eq_of_testBit_eq; intro j
+  rw [Nat.testBit_and, Nat.testBit_two_pow]
+  by_cases c : p = j
+  · subst c
+    cases hx : x.testBit p <;> simp [Nat.testBit_two_pow]
+  · cases hx : x.testBit p <;> simp [Nat.testBit_two_pow, c]
+
+theorem wwTestBit_val {w : Nat} (hw : 0 < w) (a : List Nat) (pos : Nat)
+    (hres : pos < w * a.length) (h : Wf w a) :
+    wwTestBit w a pos = (val w a).testBit pos := by
+  unfold wwTestBit
+  rw [testBit_val hw a h, wbit_eq (Nat.mod_lt _ hw), and_two_pow']
+  cases (a.getD (pos / w) 0).testBit (pos % w)
+  · simp
+  · have := Nat.two_pow_pos (pos % w)
+    simp
+
+theorem wwSetBit_bits {w : Nat} (hw : 0 < w) (a : List Nat) (pos : Nat) (b : Bool)
+    (hres : pos < w * a.length) (h : Wf w a) :
+    (wwSetBit w a pos b).length = a.length ∧ Wf w (wwSetBit w a pos b) ∧
+    ∀ k, (val w (wwSetBit w a pos b)).testBit k = if k = pos then b else (val w a).testBit k := by
+  have hnl := pos_word_lt hres
+  have hp : pos % w < w := Nat.mod_lt _ hw
+  have han := getD_lt h (pos / w)
+  unfold wwSetBit
+  simp only [wbit_eq hp, List.length_set, true_and]
+  have hf : wneg w (if b then 1 else 0) < 2 ^ w := Nat.mod_lt _ (Nat.two_pow_pos w)
+  have hfb : (wneg w (if b then 1 else 0)).testBit (pos % w) = b := by
+    cases b
+    · simp [wneg]
+    · have h1 : 1 < 2 ^ w := Nat.one_lt_two_pow (by omega)
+      simp only [wneg, if_true, Nat.mod_eq_of_lt h1]
+      rw [Nat.mod_eq_of_lt (by omega), Nat.testBit_two_pow_sub_one]
+      simp [hp]
+  have hA : a.getD (pos / w) 0 ^^^
+      ((wneg w (if b then 1 else 0) ^^^ a.getD (pos / w) 0) &&& 2 ^ (pos % w)) < 2 ^ w :=
+    Nat.xor_lt_two_pow han (Nat.and_lt_two_pow _ (Nat.pow_lt_pow_right (by decide) hp))
+  obtain ⟨hWf, hb⟩ := set_word_bits hw a h (pos / w) _ hnl hA
+  refine ⟨hWf, fun k => ?_⟩
+  rw [hb k]
+  by_cases c : k / w = pos / w
+  · rw [if_pos c, Nat.testBit_xor, Nat.testBit_and, Nat.testBit_xor, Nat.testBit_two_pow]
+    by_cases c2 : k % w = pos % w
+    · have : k = pos := (pos_split hw pos k).mpr ⟨c, c2⟩
+      rw [if_pos this, c2, hfb]
+      cases b <;> cases (a.getD (pos / w) 0).testBit (pos % w) <;> simp
+    · have : ¬ k = pos := fun e => c2 ((pos_split hw pos k).mp e).2
+      have c3 : ¬ pos % w = k % w := fun e => c2 e.symm
+      rw [if_neg this, testBit_val hw a h, c]
+      simp [c3]
+  · have : ¬ k = pos := fun e => c ((pos_split hw pos k).mp e).1
+    rw [if_neg c, if_neg this]
+
+theorem wwFlipBit_bits {w : Nat} (hw : 0 < w) (a : List Nat) (pos : Nat)
+    (hres : pos < w * a.length) (h : Wf w a) :
+    (wwFlipBit w a pos).length = a.length ∧ Wf w (wwFlipBit w a pos) ∧
+    ∀ k, (val w (wwFlipBit w a pos)).testBit k =
+      if k = pos then !(val w a).testBit k else (val w a).testBit k := by
+  have hnl := pos_word_lt hres
+  have hp : pos % w < w := Nat.mod_lt _ hw
+  have han := getD_lt h (pos / w)
+  unfold wwFlipBit
+  simp only [wbit_eq hp, List.length_set, true_and]
+  have hA : a.getD (pos / w) 0 ^^^ 2 ^ (pos % w) < 2 ^ w :=
+    Nat.xor_lt_two_pow han (Nat.pow_lt_pow_right (by decide) hp)
+  obtain ⟨hWf, hb⟩ := set_word_bits hw a h (pos / w) _ hnl hA
+  refine ⟨hWf, fun k => ?_⟩
+  rw [hb k]
+  by_cases c : k / w = pos / w
+  · rw [if_pos c, Nat.testBit_xor, Nat.testBit_two_pow, testBit_val hw a h, c]
+    by_cases c2 : k % w = pos % w
+    · have : k = pos := (pos_split hw pos k).mpr ⟨c, c2⟩
+      rw [if_pos this, c2]
+      simp
+    · have : ¬ k = pos := fun e => c2 ((pos_split hw pos k).mp e).2
+      have c3 : ¬ pos % w = k % w := fun e => c2 e.symm
+      rw [if_neg this]
+      simp [c3]
+  · have : ¬ k = pos := fun e => c ((pos_split hw pos k).mp e).1
+    rw [if_neg c, if_neg this]
+
+/-- a single-bit description in the form needed by `field_replace` -/
+theorem bit_replace (X Y pos : Nat) (b : Bool)
+    (h : ∀ k, Y.testBit k = if k = pos then b else X.testBit k) :
+    Y + (X / 2 ^ pos % 2) * 2 ^ pos = X + b.toNat * 2 ^ pos := by
+  have := field_replace X Y pos 1 b.toNat (by
+    intro k
+    rw [h k]
+    by_cases c : k = pos
+    · subst c
+      have : k ≤ k ∧ k < k + 1 := by omega
+      rw [if_pos rfl, if_pos this, Nat.sub_self]
+      cases b <;> simp
+    · have : ¬ (pos ≤ k ∧ k < pos + 1) := by omega
+      rw [if_neg c, if_neg this])
+  rw [Nat.pow_one] at this
+  have e : b.toNat % 2 = b.toNat := by cases b <;> rfl
+  rw [e] at this
+  exact this
+
+
+
+/-! ## shifts -/
+
+/-- an in-place ascending loop `for (; pos + c < n; pos++) a[pos] = g(a, pos)` whose body reads the
+    array only at indices ≥ pos computes `g` of the ORIGINAL array at every visited index -/
+theorem forUp_spec (n c : Nat) (cond : Nat → Bool) (hc : ∀ p, cond p = decide (p + c < n))
+    (g : List Nat → Nat → Nat)
+    (hg : ∀ (a b : List Nat) (p : Nat), (∀ i, p ≤ i → a.getD i 0 = b.getD i 0) → g a p = g b p) :
+    ∀ (fuel pos : Nat) (a : List Nat), a.length = n → n ≤ pos + c + fuel →
+      (forUp cond (fun pos a => a.set pos (g a pos)) fuel pos a).1 = max pos (n - c) ∧
+      (forUp cond (fun pos a => a.set pos (g a pos)) fuel pos a).2.length = n ∧
+      ∀ i, (forUp cond (fun pos a => a.set pos (g a pos)) fuel pos a).2.getD i 0 =
+        if pos ≤ i ∧ i + c < n then g a i else a.getD i 0 := by
+  intro fuel
+  induction fuel with
+  | zero =>
+    intro pos a hl hf
+    simp only [forUp]
+    refine ⟨by omega, hl, fun i => ?_⟩
+    have : ¬ (pos ≤ i ∧ i + c < n) := by omega
+    rw [if_neg this]
+  | succ fuel ih =>
+    intro pos a hl hf
+    simp only [forUp, hc]
+    by_cases hcond : pos + c < n
+    · simp only [hcond, decide_true, if_true]
+      have hl1 : (a.set pos (g a pos)).length = n := by rw [List.length_set]; exact hl
+      obtain ⟨h1, h2, h3⟩ := ih (pos + 1) (a.set pos (g a pos)) hl1 (by omega)
+      refine ⟨by rw [h1]; omega, h2, fun i => ?_⟩
+      rw [h3 i]
+      by_cases c1 : pos + 1 ≤ i ∧ i + c < n
+      · have c2 : pos ≤ i ∧ i + c < n := by omega
+        rw [if_pos c1, if_pos c2]
+        apply hg
+        intro j hj
+        rw [getD_set]
+        have : ¬ (j = pos ∧ pos < a.length) := by omega
+        rw [if_neg this]
+      · rw [if_neg c1, getD_set]
+        by_cases c2 : i = pos
+        · have c3 : pos ≤ i ∧ i + c < n := by omega
+          have c4 : i = pos ∧ pos < a.length := by omega
+          rw [if_pos c4, if_pos c3, c2]
+        · have c3 : ¬ (pos ≤ i ∧ i + c < n) := by omega
+          have c4 : ¬ (i = pos ∧ pos < a.length) := by omega
+          rw [if_neg c4, if_neg c3]
+    · simp only [hcond, decide_false, Bool.false_eq_true, if_false]
+      refine ⟨by omega, hl, fun i => ?_⟩
+      have : ¬ (pos ≤ i ∧ i + c < n) := by omega
+      rw [if_neg this]
+
+/-- the word `i` of the shifted number -/
+def shLoWord (w : Nat) (a : List Nat) (ws sh i : Nat) : Nat :=
+  wshr (a.getD (i + ws) 0) sh ||| wshl w (a.getD (i + ws + 1) 0) (w - sh)
+
+theorem wshl_zero (w s : Nat) : wshl w 0 s = 0 := by simp [wshl]
+theorem wshl_full (w x : Nat) : wshl w x w = 0 := by simp [wshl]
+
+theorem getD_beyond (a : List Nat) (i : Nat) (h : a.length ≤ i) : a.getD i 0 = 0 := by
+  rw [List.getD_eq_getElem?_getD, List.getElem?_eq_none h]; rfl
+
+theorem zeroUp_spec (n : Nat) (pos : Nat) (a : List Nat) (hl : a.length = n) :
+    (zeroUp n pos a).length = n ∧
+    ∀ i, (zeroUp n pos a).getD i 0 = if pos ≤ i then 0 else a.getD i 0 := by
+  unfold zeroUp
+  obtain ⟨_, h2, h3⟩ := forUp_spec n 0 (fun pos => decide (pos < n)) (fun p => by simp)
+    (fun _ _ => 0) (fun _ _ _ _ => rfl) n pos a hl (by omega)
+  refine ⟨h2, fun i => ?_⟩
+  rw [h3 i]
+  by_cases c1 : pos ≤ i
+  · by_cases c2 : i < n
+    · simp [c1, c2]
+    · have : ¬ (pos ≤ i ∧ i + 0 < n) := by omega
+      rw [if_neg this, if_pos c1, getD_beyond a i (by omega)]
+  · have : ¬ (pos ≤ i ∧ i + 0 < n) := by omega
+    rw [if_neg this, if_neg c1]
+
+theorem wwShLo_words {w : Nat} (hw : 0 < w) (a : List Nat) (shift : Nat)
+    (hs : shift < w * a.length) :
+    (wwShLo w a shift).length = a.length ∧
+    ∀ i, (wwShLo w a shift).getD i 0 =
+      if i < a.length then shLoWord w a (shift / w) (shift % w) i else 0 := by
+  have hwsn : shift / w < a.length := pos_word_lt hs
+  unfold wwShLo
+  simp only [hs, if_true]
+  generalize hn : a.length = n at *
+  generalize hws : shift / w = ws at *
+  generalize hsh : shift % w = sh
+  have hshw : sh < w := by rw [← hsh]; exact Nat.mod_lt _ hw
+  by_cases h0 : sh = 0
+  · -- whole words
+    subst h0
+    simp only [ne_eq, not_true_eq_false, if_false]
+    unfold shLoCopy
+    obtain ⟨h1, h2, h3⟩ := forUp_spec n ws (fun pos => decide (pos + ws < n)) (fun p => rfl)
+      (fun a p => a.getD (p + ws) 0)
+      (fun a b p hab => hab (p + ws) (by omega)) n 0 a hn (by omega)
+    obtain ⟨z1, z2⟩ := zeroUp_spec n _ _ h2
+    refine ⟨z1, fun i => ?_⟩
+    rw [z2 i, h1, h3 i]
+    unfold shLoWord
+    simp only [Nat.sub_zero, wshl_full, Nat.or_zero, wshr, Nat.pow_zero, Nat.div_one]
+    by_cases c1 : i < n
+    · by_cases c2 : i + ws < n
+      · have c3 : ¬ (max 0 (n - ws) ≤ i) := by omega
+        simp [c1, c2, c3]
+      · have c3 : (max 0 (n - ws) ≤ i) := by omega
+        rw [if_pos c3, if_pos c1, getD_beyond a (i + ws) (by omega)]
+    · have c3 : (max 0 (n - ws) ≤ i) := by omega
+      rw [if_pos c3, if_neg c1]
+  · simp only [ne_eq, h0, not_false_eq_true, if_true]
+    unfold shLoLoop
+    obtain ⟨h1, h2, h3⟩ := forUp_spec n (ws + 1) (fun pos => decide (pos + ws + 1 < n))
+      (fun p => by simp [Nat.add_assoc])
+      (fun a p => wshr (a.getD (p + ws) 0) sh ||| wshl w (a.getD (p + ws + 1) 0) (w - sh))
+      (fun a b p hab => by
+        simp only [hab (p + ws) (by omega), hab (p + ws + 1) (by omega)]) n 0 a hn (by omega)
+    generalize hr : forUp (fun pos => decide (pos + ws + 1 < n))
+      (fun pos a => a.set pos
+        (wshr (a.getD (pos + ws) 0) sh ||| wshl w (a.getD (pos + ws + 1) 0) (w - sh))) n 0 a = r at *
+    obtain ⟨p1, a1⟩ := r
+    simp only at h1 h2 h3 ⊢
+    have hp1 : p1 = n - (ws + 1) := by omega
+    have hl2 : (a1.set p1 (wshr (a1.getD (p1 + ws) 0) sh)).length = n := by
+      rw [List.length_set]; exact h2
+    obtain ⟨z1, z2⟩ := zeroUp_spec n (p1 + 1) _ hl2
+    refine ⟨z1, fun i => ?_⟩
+    rw [z2 i, getD_set, h3 i, h3 (p1 + ws)]
+    unfold shLoWord
+    by_cases c1 : i < n
+    · rw [if_pos c1]
+      by_cases c2 : i + (ws + 1) < n
+      · have c3 : ¬ (p1 + 1 ≤ i) := by omega
+        have c4 : ¬ (i = p1 ∧ p1 < a1.length) := by omega
+        have c5 : 0 ≤ i ∧ i + (ws + 1) < n := by omega
+        rw [if_neg c3, if_neg c4, if_pos c5]
+      · by_cases c6 : i = p1
+        · have c3 : ¬ (p1 + 1 ≤ i) := by omega
+          have c4 : (i = p1 ∧ p1 < a1.length) := by omega
+          have c5 : ¬ (0 ≤ p1 + ws ∧ p1 + ws + (ws + 1) < n) := by omega
+          rw [if_neg c3, if_pos c4, if_neg c5, c6, getD_beyond a (p1 + ws + 1) (by omega),
+            wshl_zero, Nat.or_zero]
+        · have c3 : (p1 + 1 ≤ i) := by omega
+          rw [if_pos c3, getD_beyond a (i + ws) (by omega), getD_beyond a (i + ws + 1) (by omega),
+            wshl_zero]
+          simp [wshr]
+    · have c3 : (p1 + 1 ≤ i) := by omega
+      rw [if_pos c3, if_neg c1]
+
+
+theorem val_lt {w : Nat} : ∀ (a : List Nat), Wf w a → val w a < 2 ^ (w * a.length) := by
+  intro a
+  induction a with
+  | nil => intro _; simp [val]
+  | cons x xs ih =>
+    intro h
+    obtain ⟨hx, hxs⟩ := Wf_cons.mp h
+    have := ih hxs
+    rw [val_cons, List.length_cons, Nat.mul_add, Nat.mul_one, Nat.pow_add]
+    have h2 : 2 ^ w * (val w xs + 1) ≤ 2 ^ w * 2 ^ (w * xs.length) := Nat.mul_le_mul_left _ this
+    rw [Nat.mul_add, Nat.mul_one] at h2
+    rw [Nat.mul_comm (2 ^ (w * xs.length))]
+    omega
+
+theorem val_replicate_zero (w n : Nat) : val w (List.replicate n 0) = 0 := by
+  induction n with
+  | zero => rfl
+  | succ n ih => simp [List.replicate_succ, val, ih]
+
+theorem Wf_replicate_zero (w n : Nat) : Wf w (List.replicate n 0) := by
+  intro x hx
+  rw [(List.mem_replicate.mp hx).2]
+  exact Nat.two_pow_pos w
+
+theorem Wf_of_getD {w : Nat} {R : List Nat} (h : ∀ i, R.getD i 0 < 2 ^ w) : Wf w R := by
+  intro x hx
+  obtain ⟨i, hi, rfl⟩ := List.mem_iff_getElem.mp hx
+  have := h i
+  rw [List.getD_eq_getElem?_getD, List.getElem?_eq_getElem hi] at this
+  exact this
+
+theorem wshr_lt {w x : Nat} (s : Nat) (h : x < 2 ^ w) : wshr x s < 2 ^ w :=
+  Nat.lt_of_le_of_lt (Nat.div_le_self _ _) h
+
+theorem wshl_lt (w x s : Nat) : wshl w x s < 2 ^ w := Nat.mod_lt _ (Nat.two_pow_pos w)
+
+theorem wwShLo_val {w : Nat} (hw : 0 < w) (a : List Nat) (shift : Nat) (h : Wf w a) :
+    (wwShLo w a shift).length = a.length ∧ Wf w (wwShLo w a shift) ∧
+    val w (wwShLo w a shift) = val w a / 2 ^ shift := by
+  by_cases hs : shift < w * a.length
+  · obtain ⟨h1, h2⟩ := wwShLo_words hw a shift hs
+    have hWf : Wf w (wwShLo w a shift) := by
+      apply Wf_of_getD
+      intro i
+      rw [h2 i]
+      split
+      · exact Nat.or_lt_two_pow (wshr_lt _ (getD_lt h _)) (wshl_lt _ _ _)
+      · exact Nat.two_pow_pos w
+    refine ⟨h1, hWf, ?_⟩
+    apply Nat.eq_of_testBit_eq
+    intro k
+    rw [testBit_val hw _ hWf, h2, tb_div, testBit_val hw a h]
+    have hj : k % w < w := Nat.mod_lt _ hw
+    have hk : k = w * (k / w) + k % w := (Nat.div_add_mod k w).symm
+    have hsh : shift % w < w := Nat.mod_lt _ hw
+    have hss : shift = w * (shift / w) + shift % w := (Nat.div_add_mod shift w).symm
+    generalize k / w = i at hk
+    generalize k % w = j at hk hj
+    generalize shift / w = ws at hss
+    generalize shift % w = sh at hss hsh
+    have hidx : shift + k = w * (i + ws) + (sh + j) := by
+      rw [hss, hk, Nat.mul_add]; omega
+    rw [hidx]
+    by_cases c0 : i < a.length
+    · rw [if_pos c0]
+      unfold shLoWord
+      rw [Nat.testBit_or, tb_div, testBit_wshl]
+      by_cases c1 : sh + j < w
+      · obtain ⟨e1, e2⟩ := idx_lo hw (i + ws) (sh + j) c1
+        have c2 : ¬ (w - sh ≤ j) := by omega
+        rw [e1, e2]; simp [c2]
+      · obtain ⟨e1, e2⟩ := idx_hi hw (i + ws) (sh + j) (by omega) (by omega)
+        have c2 : (w - sh ≤ j) := by omega
+        have e3 : j - (w - sh) = sh + j - w := by omega
+        rw [e1, e2, testBit_high (getD_lt h (i + ws)) (by omega), e3]; simp [c2, hj]
+    · rw [if_neg c0, Nat.zero_testBit]
+      have : a.length ≤ (w * (i + ws) + (sh + j)) / w := by
+        rw [Nat.mul_add_div hw]
+        exact Nat.le_trans (by omega : a.length ≤ i + ws) (Nat.le_add_right _ _)
+      rw [getD_beyond a _ this, Nat.zero_testBit]
+  · have hz : wwShLo w a shift = List.replicate a.length 0 := by
+      unfold wwShLo wwSetZero; rw [if_neg hs]
+    rw [hz]
+    refine ⟨List.length_replicate, Wf_replicate_zero _ _, ?_⟩
+    rw [val_replicate_zero]
+    have h1 := val_lt a h
+    have h2 : 2 ^ (w * a.length) ≤ 2 ^ shift := Nat.pow_le_pow_right (by decide) (by omega)
+    exact (Nat.div_eq_of_lt (by omega)).symm
+
+
+/-! ## NegInv, all widths -/
+
+/-- one Newton step in ℤ/M: if `ret' = ret (w ret + 2)` then `ret' w + 1 = (ret w + 1)^2` -/
+theorem negInvStep_cast (M w ret : Nat) :
+    (((ret * (((w * ret) % M + 2) % M)) % M : Nat) : ZMod M) * (w : ZMod M) + 1
+      = ((ret : ZMod M) * w + 1) ^ 2 := by
+  simp only [ZMod.natCast_mod, Nat.cast_mul, Nat.cast_add, Nat.cast_ofNat]
+  ring
+
+theorem negInv_start (M w : Nat) (hodd : w % 2 = 1) :
+    ∃ t : Nat, ((w : ZMod M) * w + 1) = 2 * (t : ZMod M) := by
+  refine ⟨(w * w + 1) / 2, ?_⟩
+  have h : w * w + 1 = 2 * ((w * w + 1) / 2) := by
+    have : (w * w + 1) % 2 = 0 := by
+      rw [Nat.add_mod, Nat.mul_mod, hodd]
+    omega
+  have := congrArg (Nat.cast : Nat → ZMod M) h
+  push_cast at this
+  exact this
+
+theorem u32NegInv_gen (x : Nat) (hodd : x % 2 = 1) : (u32NegInv x * x + 1) % 2 ^ 32 = 0 := by
+  apply Nat.mod_eq_zero_of_dvd
+  rw [← ZMod.natCast_eq_zero_iff]
+  obtain ⟨t, ht⟩ := negInv_start (2 ^ 32) x hodd
+  have h2 : ((2 : ZMod (2 ^ 32)) ^ 32) = 0 := by
+    have := ZMod.natCast_self (2 ^ 32)
+    push_cast at this
+    exact this
+  unfold u32NegInv u32NegInvStep
+  push_cast
+  have e : (0x100000000 : Nat) = 2 ^ 32 := by norm_num
+  simp only [e]
+  rw [negInvStep_cast, negInvStep_cast, negInvStep_cast, negInvStep_cast, negInvStep_cast, ht]
+  calc ((((((2 * (t : ZMod (2 ^ 32))) ^ 2) ^ 2) ^ 2) ^ 2) ^ 2) = 2 ^ 32 * (t : ZMod (2 ^ 32)) ^ 32 := by ring
+    _ = 0 := by rw [h2, zero_mul]
+
+theorem u64NegInv_gen (x : Nat) (hodd : x % 2 = 1) : (u64NegInv x * x + 1) % 2 ^ 64 = 0 := by
+  apply Nat.mod_eq_zero_of_dvd
+  rw [← ZMod.natCast_eq_zero_iff]
+  obtain ⟨t, ht⟩ := negInv_start (2 ^ 64) x hodd
+  have h2 : ((2 : ZMod (2 ^ 64)) ^ 64) = 0 := by
+    have := ZMod.natCast_self (2 ^ 64)
+    push_cast at this
+    exact this
+  unfold u64NegInv u64NegInvStep
+  push_cast
+  have e : (0x10000000000000000 : Nat) = 2 ^ 64 := by norm_num
+  simp only [e]
+  rw [negInvStep_cast, negInvStep_cast, negInvStep_cast, negInvStep_cast, negInvStep_cast,
+    negInvStep_cast, ht]
+  calc (((((((2 * (t : ZMod (2 ^ 64))) ^ 2) ^ 2) ^ 2) ^ 2) ^ 2) ^ 2)
+      = 2 ^ 64 * (t : ZMod (2 ^ 64)) ^ 64 := by ring
+    _ = 0 := by rw [h2, zero_mul]
+
+/-- the u16 step: evaluated in `int`, reduced only by the assignment -/
+theorem negInvStep16_cast (M w ret : Nat) :
+    (((ret * (w * ret + 2)) % M : Nat) : ZMod M) * (w : ZMod M) + 1
+      = ((ret : ZMod M) * w + 1) ^ 2 := by
+  simp only [ZMod.natCast_mod, Nat.cast_mul, Nat.cast_add, Nat.cast_ofNat]
+  ring
+
+theorem u16NegInv_gen (x : Nat) (hodd : x % 2 = 1) : (u16NegInv x * x + 1) % 2 ^ 16 = 0 := by
+  apply Nat.mod_eq_zero_of_dvd
+  rw [← ZMod.natCast_eq_zero_iff]
+  obtain ⟨t, ht⟩ := negInv_start (2 ^ 16) x hodd
+  have h2 : ((2 : ZMod (2 ^ 16)) ^ 16) = 0 := by
+    have := ZMod.natCast_self (2 ^ 16)
+    push_cast at this
+    exact this
+  unfold u16NegInv u16NegInvStep
+  push_cast
+  have e : (0x10000 : Nat) = 2 ^ 16 := by norm_num
+  simp only [e]
+  rw [negInvStep16_cast, negInvStep16_cast, negInvStep16_cast, negInvStep16_cast, ht]
+  calc (((((2 * (t : ZMod (2 ^ 16))) ^ 2) ^ 2) ^ 2) ^ 2) = 2 ^ 16 * (t : ZMod (2 ^ 16)) ^ 16 := by ring
+    _ = 0 := by rw [h2, zero_mul]
+
+
+/-! ## CLZ / CTZ -/
+
+/-- `c` is the number of trailing zero bits of the `bits`-bit word `x` -/
+def CtzSpec (bits x c : Nat) : Prop :=
+  (x = 0 → c = bits) ∧ (x ≠ 0 → c < bits ∧ x % 2 ^ c = 0 ∧ x / 2 ^ c % 2 = 1)
+/-- `c` is the number of leading zero bits of the `bits`-bit word `x` -/
+def ClzSpec (bits x c : Nat) : Prop :=
+  (x = 0 → c = bits) ∧ (x ≠ 0 → c < bits ∧ x / 2 ^ (bits - 1 - c) = 1)
+
+theorem u32CLZ_fast_gen (x : Nat) (hx : x < 2 ^ 32) : ClzSpec 32 x (u32CLZ_fast x) := by
+  unfold u32CLZ_fast ClzSpec
+  simp only [Nat.shiftRight_eq_div_pow]
+  norm_num at hx ⊢
+  split_ifs <;> simp only [] at * <;> refine ⟨by first | omega | (intro; trivial), fun h0 => ⟨by omega, ?_⟩⟩ <;> norm_num <;> omega
+
+
+/-- an in-place descending loop `for (; pos + 1 > c; pos--) a[pos] = g(a, pos)` (q = pos + 1) whose
+    body reads the array only at indices ≤ pos computes `g` of the ORIGINAL array -/
+theorem forDown_spec (n c : Nat) (cond : Nat → Bool) (hc : ∀ q, cond q = decide (c < q))
+    (g : List Nat → Nat → Nat)
+    (hg : ∀ (a b : List Nat) (p : Nat), (∀ i, i ≤ p → a.getD i 0 = b.getD i 0) → g a p = g b p) :
+    ∀ (fuel q : Nat) (a : List Nat), a.length = n → q ≤ n → q ≤ c + fuel →
+      (forDown cond (fun pos a => a.set pos (g a pos)) fuel q a).1 = min q c ∧
+      (forDown cond (fun pos a => a.set pos (g a pos)) fuel q a).2.length = n ∧
+      ∀ i, (forDown cond (fun pos a => a.set pos (g a pos)) fuel q a).2.getD i 0 =
+        if c ≤ i ∧ i < q then g a i else a.getD i 0 := by
+  intro fuel
+  induction fuel with
+  | zero =>
+    intro q a hl hq hf
+    simp only [forDown]
+    refine ⟨by omega, hl, fun i => ?_⟩
+    have : ¬ (c ≤ i ∧ i < q) := by omega
+    rw [if_neg this]
+  | succ fuel ih =>
+    intro q a hl hq hf
+    simp only [forDown, hc]
+    by_cases hcond : c < q
+    · simp only [hcond, decide_true, if_true]
+      have hl1 : (a.set (q - 1) (g a (q - 1))).length = n := by rw [List.length_set]; exact hl
+      obtain ⟨h1, h2, h3⟩ := ih (q - 1) (a.set (q - 1) (g a (q - 1))) hl1 (by omega) (by omega)
+      refine ⟨by rw [h1]; omega, h2, fun i => ?_⟩
+      rw [h3 i]
+      by_cases c1 : c ≤ i ∧ i < q - 1
+      · have c2 : c ≤ i ∧ i < q := by omega
+        rw [if_pos c1, if_pos c2]
+        apply hg
+        intro j hj
+        rw [getD_set]
+        have : ¬ (j = q - 1 ∧ q - 1 < a.length) := by omega
+        rw [if_neg this]
+      · rw [if_neg c1, getD_set]
+        by_cases c2 : i = q - 1
+        · have c3 : c ≤ i ∧ i < q := by omega
+          have c4 : i = q - 1 ∧ q - 1 < a.length := by omega
+          rw [if_pos c4, if_pos c3, c2]
+        · have c3 : ¬ (c ≤ i ∧ i < q) := by omega
+          have c4 : ¬ (i = q - 1 ∧ q - 1 < a.length) := by omega
+          rw [if_neg c4, if_neg c3]
+    · simp only [hcond, decide_false, Bool.false_eq_true, if_false]
+      refine ⟨by omega, hl, fun i => ?_⟩
+      have : ¬ (c ≤ i ∧ i < q) := by omega
+      rw [if_neg this]
+
+theorem zeroDown_spec (n : Nat) (q : Nat) (a : List Nat) (hl : a.length = n) (hq : q ≤ n) :
+    (zeroDown n q a).length = n ∧
+    ∀ i, (zeroDown n q a).getD i 0 = if i < q then 0 else a.getD i 0 := by
+  unfold zeroDown
+  obtain ⟨_, h2, h3⟩ := forDown_spec n 0 (fun q => q != 0) (fun p => by
+      by_cases h : p = 0 <;> simp [h, Nat.pos_iff_ne_zero])
+    (fun _ _ => 0) (fun _ _ _ _ => rfl) n q a hl hq (by omega)
+  refine ⟨h2, fun i => ?_⟩
+  rw [h3 i]
+  simp
+
+/-- the word `i` of the number shifted towards the high bits -/
+def shHiWord (w : Nat) (a : List Nat) (ws sh i : Nat) : Nat :=
+  if i < ws then 0
+  else wshl w (a.getD (i - ws) 0) sh ||| (if i = ws then 0 else wshr (a.getD (i - ws - 1) 0) (w - sh))
+
+theorem wwShHi_words {w : Nat} (hw : 0 < w) (a : List Nat) (shift : Nat) (h : Wf w a)
+    (hs : shift < w * a.length) :
+    (wwShHi w a shift).length = a.length ∧
+    ∀ i, (wwShHi w a shift).getD i 0 =
+      if i < a.length then shHiWord w a (shift / w) (shift % w) i else 0 := by
+  have hwsn : shift / w < a.length := pos_word_lt hs
+  unfold wwShHi
+  simp only [hs, if_true]
+  generalize hn : a.length = n at *
+  generalize hws : shift / w = ws at *
+  generalize hsh : shift % w = sh
+  have hshw : sh < w := by rw [← hsh]; exact Nat.mod_lt _ hw
+  by_cases h0 : sh = 0
+  · subst h0
+    simp only [ne_eq, not_true_eq_false, if_false]
+    unfold shHiCopy
+    obtain ⟨h1, h2, h3⟩ := forDown_spec n ws (fun q => q != 0 && decide (q > ws)) (fun p => by
+        by_cases hp : ws < p
+        · have : p ≠ 0 := by omega
+          simp [hp, this]
+        · simp [hp])
+      (fun a p => a.getD (p - ws) 0)
+      (fun a b p hab => hab (p - ws) (by omega)) n n a hn (by omega) (by omega)
+    obtain ⟨z1, z2⟩ := zeroDown_spec n (forDown (fun q => q != 0 && decide (q > ws))
+      (fun pos a => a.set pos (a.getD (pos - ws) 0)) n n a).1 _ h2 (by rw [h1]; omega)
+    refine ⟨z1, fun i => ?_⟩
+    rw [z2 i, h1, h3 i]
+    unfold shHiWord
+    by_cases c1 : i < n
+    · rw [if_pos c1]
+      by_cases c2 : i < ws
+      · have c3 : i < min n ws := by omega
+        rw [if_pos c3, if_pos c2]
+      · have c3 : ¬ i < min n ws := by omega
+        have c4 : ws ≤ i ∧ i < n := by omega
+        have e1 : wshl w (a.getD (i - ws) 0) 0 = a.getD (i - ws) 0 := by
+          simp only [wshl, Nat.pow_zero, Nat.mul_one]
+          exact Nat.mod_eq_of_lt (getD_lt h _)
+        have e2 : wshr (a.getD (i - ws - 1) 0) (w - 0) = 0 := by
+          simp only [wshr, Nat.sub_zero]
+          exact Nat.div_eq_of_lt (getD_lt h _)
+        rw [if_neg c3, if_pos c4, if_neg c2, e1, e2]
+        split <;> simp
+    · have c3 : ¬ i < min n ws := by omega
+      have c4 : ¬ (ws ≤ i ∧ i < n) := by omega
+      rw [if_neg c3, if_neg c4, if_neg c1, getD_beyond a i (by omega)]
+  · simp only [ne_eq, h0, not_false_eq_true, if_true]
+    unfold shHiLoop
+    obtain ⟨h1, h2, h3⟩ := forDown_spec n (ws + 1) (fun q => decide (q > ws + 1))
+      (fun p => rfl)
+      (fun a p => wshl w (a.getD (p - ws) 0) sh ||| wshr (a.getD (p - ws - 1) 0) (w - sh))
+      (fun a b p hab => by
+        simp only [hab (p - ws) (by omega), hab (p - ws - 1) (by omega)]) n n a hn (by omega)
+        (by omega)
+    generalize hr : forDown (fun q => decide (q > ws + 1))
+      (fun pos a => a.set pos
+        (wshl w (a.getD (pos - ws) 0) sh ||| wshr (a.getD (pos - ws - 1) 0) (w - sh))) n n a = r at *
+    obtain ⟨q1, a1⟩ := r
+    simp only at h1 h2 h3 ⊢
+    have hq1 : q1 = ws + 1 := by omega
+    have hl2 : (a1.set (q1 - 1) (wshl w (a1.getD (q1 - 1 - ws) 0) sh)).length = n := by
+      rw [List.length_set]; exact h2
+    obtain ⟨z1, z2⟩ := zeroDown_spec n (q1 - 1) _ hl2 (by omega)
+    refine ⟨z1, fun i => ?_⟩
+    rw [z2 i, getD_set, h3 i, h3 (q1 - 1 - ws)]
+    unfold shHiWord
+    subst hq1
+    simp only [Nat.add_sub_cancel, Nat.sub_self]
+    by_cases c1 : i < n
+    · rw [if_pos c1]
+      by_cases c2 : i < ws
+      · rw [if_pos c2, if_pos c2]
+      · rw [if_neg c2, if_neg c2]
+        by_cases c3 : i = ws
+        · have c4 : i = ws ∧ ws < a1.length := by omega
+          have c5 : ¬ (ws + 1 ≤ 0 ∧ 0 < n) := by omega
+          rw [if_pos c4, if_neg c5, if_pos c3, c3, Nat.sub_self, Nat.or_zero]
+        · have c4 : ¬ (i = ws ∧ ws < a1.length) := by omega
+          have c5 : (ws + 1 ≤ i ∧ i < n) := by omega
+          rw [if_neg c4, if_pos c5, if_neg c3]
+    · have c2 : ¬ i < ws := by omega
+      have c4 : ¬ (i = ws ∧ ws < a1.length) := by omega
+      have c5 : ¬ (ws + 1 ≤ i ∧ i < n) := by omega
+      rw [if_neg c2, if_neg c4, if_neg c5, if_neg c1, getD_beyond a i (by omega)]
+
+
+theorem wwShHi_val {w : Nat} (hw : 0 < w) (a : List Nat) (shift : Nat) (h : Wf w a) :
+    (wwShHi w a shift).length = a.length ∧ Wf w (wwShHi w a shift) ∧
+    val w (wwShHi w a shift) = (val w a * 2 ^ shift) % 2 ^ (w * a.length) := by
+  by_cases hs : shift < w * a.length
+  · obtain ⟨h1, h2⟩ := wwShHi_words hw a shift h hs
+    have hWf : Wf w (wwShHi w a shift) := by
+      apply Wf_of_getD
+      intro i
+      rw [h2 i]
+      unfold shHiWord
+      split
+      · split
+        · exact Nat.two_pow_pos w
+        · refine Nat.or_lt_two_pow (wshl_lt _ _ _) ?_
+          split
+          · exact Nat.two_pow_pos w
+          · exact wshr_lt _ (getD_lt h _)
+      · exact Nat.two_pow_pos w
+    refine ⟨h1, hWf, ?_⟩
+    apply Nat.eq_of_testBit_eq
+    intro k
+    rw [testBit_val hw _ hWf, h2, Nat.testBit_mod_two_pow, Nat.testBit_mul_two_pow]
+    have hj : k % w < w := Nat.mod_lt _ hw
+    have hk : k = w * (k / w) + k % w := (Nat.div_add_mod k w).symm
+    have hsh : shift % w < w := Nat.mod_lt _ hw
+    have hss : shift = w * (shift / w) + shift % w := (Nat.div_add_mod shift w).symm
+    generalize k / w = i at hk
+    generalize k % w = j at hk hj
+    generalize shift / w = ws at hss
+    generalize shift % w = sh at hss hsh
+    by_cases c0 : i < a.length
+    · have hkn : k < w * a.length := by
+        have : w * (i + 1) ≤ w * a.length := Nat.mul_le_mul_left w c0
+        rw [Nat.mul_add] at this; omega
+      rw [if_pos c0]
+      simp only [hkn, decide_true, Bool.true_and]
+      unfold shHiWord
+      by_cases c1 : i < ws
+      · have : ¬ shift ≤ k := by
+          have : w * (i + 1) ≤ w * ws := Nat.mul_le_mul_left w c1
+          rw [Nat.mul_add] at this; omega
+        rw [if_pos c1]; simp [this]
+      · rw [if_neg c1, Nat.testBit_or, testBit_wshl]
+        have hmul : w * i = w * (i - ws) + w * ws := by
+          rw [← Nat.mul_add]; congr 1; omega
+        by_cases c2 : sh ≤ j
+        · have c3 : shift ≤ k := by omega
+          have hidx : k - shift = w * (i - ws) + (j - sh) := by omega
+          obtain ⟨e1, e2⟩ := idx_lo hw (i - ws) (j - sh) (by omega)
+          have e4 : (if i = ws then 0 else wshr (a.getD (i - ws - 1) 0) (w - sh)).testBit j
+              = false := by
+            split
+            · exact Nat.zero_testBit _
+            · rw [tb_div]; exact testBit_high (getD_lt h _) (by omega)
+          rw [testBit_val hw a h, hidx, e1, e2, e4]
+          simp [c2, c3, hj]
+        · have e5 : (decide (j < w) && (decide (sh ≤ j) && (a.getD (i - ws) 0).testBit (j - sh)))
+              = false := by simp [c2]
+          rw [e5, Bool.false_or]
+          by_cases c4 : i = ws
+          · have c3 : ¬ shift ≤ k := by subst c4; omega
+            rw [if_pos c4]; simp [c3]
+          · have c3 : shift ≤ k := by
+              have : w * (ws + 1) ≤ w * i := Nat.mul_le_mul_left w (by omega)
+              rw [Nat.mul_add] at this; omega
+            have hmul2 : w * i = w * (i - ws - 1) + w * ws + w := by
+              have : i = (i - ws - 1) + ws + 1 := by omega
+              conv_lhs => rw [this]
+              rw [Nat.mul_add, Nat.mul_add, Nat.mul_one]
+            have hidx : k - shift = w * (i - ws - 1) + (w - sh + j) := by omega
+            obtain ⟨e1, e2⟩ := idx_lo hw (i - ws - 1) (w - sh + j) (by omega)
+            rw [if_neg c4, tb_div, testBit_val hw a h, hidx, e1, e2]
+            simp [c3]
+    · have hkn : ¬ k < w * a.length := by
+        have : w * a.length ≤ w * i := Nat.mul_le_mul_left w (Nat.le_of_not_lt c0)
+        omega
+      rw [if_neg c0]; simp [hkn]
+  · have hz : wwShHi w a shift = List.replicate a.length 0 := by
+      unfold wwShHi wwSetZero; rw [if_neg hs]
+    rw [hz]
+    refine ⟨List.length_replicate, Wf_replicate_zero _ _, ?_⟩
+    rw [val_replicate_zero]
+    have h2 : 2 ^ shift = 2 ^ (w * a.length) * 2 ^ (shift - w * a.length) := by
+      rw [← Nat.pow_add]; congr 1; omega
+    rw [h2, ← Nat.mul_assoc, Nat.mul_comm (val w a), Nat.mul_assoc, Nat.mul_mod_right]
+
+
+
+/-! ## trimming -/
+
+theorem trimLoLoop_spec : ∀ (i : Nat) (a : List Nat),
+    (trimLoLoop i a).length = a.length ∧
+    ∀ k, (trimLoLoop i a).getD k 0 = if k < i then 0 else a.getD k 0 := by
+  intro i
+  induction i with
+  | zero => intro a; exact ⟨rfl, fun k => by simp [trimLoLoop]⟩
+  | succ i ih =>
+    intro a
+    simp only [trimLoLoop]
+    obtain ⟨h1, h2⟩ := ih (a.set i 0)
+    refine ⟨by rw [h1, List.length_set], fun k => ?_⟩
+    rw [h2 k, getD_set]
+    by_cases c1 : k < i
+    · have : k < i + 1 := by omega
+      rw [if_pos c1, if_pos this]
+    · rw [if_neg c1]
+      by_cases c2 : k = i
+      · have c3 : k < i + 1 := by omega
+        rw [if_pos c3]
+        by_cases c4 : i < a.length
+        · rw [if_pos ⟨c2, c4⟩]
+        · have : ¬ (k = i ∧ i < a.length) := fun hh => c4 hh.2
+          rw [if_neg this, getD_beyond a k (by omega)]
+      · have c3 : ¬ k < i + 1 := by omega
+        have : ¬ (k = i ∧ i < a.length) := fun hh => c2 hh.1
+        rw [if_neg c3, if_neg this]
+
+theorem bits_to_val {w : Nat} (hw : 0 < w) (R : List Nat) (X : Nat)
+    (hR : ∀ i, R.getD i 0 < 2 ^ w)
+    (hb : ∀ k, (R.getD (k / w) 0).testBit (k % w) = X.testBit k) :
+    Wf w R ∧ val w R = X := by
+  have hWf := Wf_of_getD hR
+  refine ⟨hWf, Nat.eq_of_testBit_eq fun k => ?_⟩
+  rw [testBit_val hw R hWf, hb]
+
+theorem wwTrimHi_val {w : Nat} (hw : 0 < w) (a : List Nat) (pos : Nat) (h : Wf w a) :
+    (wwTrimHi w a pos).length = a.length ∧ Wf w (wwTrimHi w a pos) ∧
+    val w (wwTrimHi w a pos) = val w a % 2 ^ pos := by
+  unfold wwTrimHi
+  simp only
+  by_cases hi : pos / w < a.length
+  · simp only [hi, if_true]
+    have hp : pos % w < w := Nat.mod_lt _ hw
+    have hpos : pos = w * (pos / w) + pos % w := (Nat.div_add_mod pos w).symm
+    generalize pos / w = n at *
+    generalize pos % w = p at *
+    -- the new word a[n]
+    have hword : ∀ L : List Nat, L = (if w - p = w then a.set n 0
+        else a.set n (wshr (wshl w (a.getD n 0) (w - p)) (w - p))) →
+        L.length = a.length ∧ ∀ i, L.getD i 0 = if i = n then a.getD n 0 % 2 ^ p else a.getD i 0 := by
+      intro L hL
+      have e : wshr (wshl w (a.getD n 0) (w - p)) (w - p) = a.getD n 0 % 2 ^ p := by
+        apply Nat.eq_of_testBit_eq; intro j
+        rw [tb_div, testBit_wshl, Nat.testBit_mod_two_pow]
+        by_cases c : j < p
+        · have c1 : w - p + j < w := by omega
+          have c2 : w - p ≤ w - p + j := by omega
+          have c3 : w - p + j - (w - p) = j := by omega
+          simp [c, c1, c2, c3]
+        · have c1 : ¬ w - p + j < w := by omega
+          simp [c, c1]
+      by_cases c0 : w - p = w
+      · have hp0 : p = 0 := by omega
+        rw [if_pos c0] at hL
+        subst hL
+        refine ⟨List.length_set, fun i => ?_⟩
+        rw [getD_set, hp0, Nat.pow_zero, Nat.mod_one]
+        by_cases c : i = n
+        · simp [c, hi]
+        · simp [c]
+      · rw [if_neg c0, e] at hL
+        subst hL
+        refine ⟨List.length_set, fun i => ?_⟩
+        rw [getD_set]
+        by_cases c : i = n
+        · simp [c, hi]
+        · simp [c]
+    obtain ⟨l1, g1⟩ := hword _ rfl
+    obtain ⟨z1, z2⟩ := zeroUp_spec a.length (n + 1) _ l1
+    refine ⟨z1, ?_⟩
+    apply bits_to_val hw
+    · intro i
+      rw [z2 i, g1 i]
+      split
+      · exact Nat.two_pow_pos w
+      · split
+        · exact Nat.lt_of_le_of_lt (Nat.mod_le _ _) (getD_lt h _)
+        · exact getD_lt h _
+    · intro k
+      rw [z2, g1, Nat.testBit_mod_two_pow, testBit_val hw a h]
+      have hj : k % w < w := Nat.mod_lt _ hw
+      have hk : k = w * (k / w) + k % w := (Nat.div_add_mod k w).symm
+      generalize k / w = i at *
+      generalize k % w = j at *
+      by_cases c1 : n + 1 ≤ i
+      · have : ¬ k < pos := by
+          have : w * (n + 1) ≤ w * i := Nat.mul_le_mul_left w c1
+          rw [Nat.mul_add] at this; omega
+        rw [if_pos c1]; simp [this]
+      · rw [if_neg c1]
+        by_cases c2 : i = n
+        · subst c2
+          have e : (k < pos) ↔ (j < p) := by omega
+          rw [if_pos rfl, Nat.testBit_mod_two_pow]
+          simp only [e]
+        · have : k < pos := by
+            have : w * (i + 1) ≤ w * n := Nat.mul_le_mul_left w (by omega)
+            rw [Nat.mul_add] at this; omega
+          rw [if_neg c2]; simp [this]
+  · simp only [hi, if_false]
+    refine ⟨trivial, h, ?_⟩
+    have h1 := val_lt a h
+    have h2 : 2 ^ (w * a.length) ≤ 2 ^ pos := by
+      apply Nat.pow_le_pow_right (by decide)
+      have := Nat.mul_le_mul_left w (Nat.le_of_not_lt hi)
+      have := Nat.mul_div_le pos w
+      omega
+    exact (Nat.mod_eq_of_lt (by omega)).symm
+
+
+theorem wwTrimLo_val {w : Nat} (hw : 0 < w) (a : List Nat) (pos : Nat) (h : Wf w a) :
+    (wwTrimLo w a pos).length = a.length ∧ Wf w (wwTrimLo w a pos) ∧
+    val w (wwTrimLo w a pos) = val w a / 2 ^ pos * 2 ^ pos := by
+  have spec_bits : ∀ k, (val w a / 2 ^ pos * 2 ^ pos).testBit k
+      = (decide (pos ≤ k) && (val w a).testBit k) := by
+    intro k
+    rw [Nat.testBit_mul_two_pow, tb_div]
+    by_cases c : pos ≤ k
+    · have : pos + (k - pos) = k := by omega
+      simp [c, this]
+    · simp [c]
+  unfold wwTrimLo
+  simp only
+  have hp : pos % w < w := Nat.mod_lt _ hw
+  have hpos : pos = w * (pos / w) + pos % w := (Nat.div_add_mod pos w).symm
+  generalize pos / w = n at *
+  generalize pos % w = p at *
+  by_cases hi : n < a.length
+  · simp only [hi, if_true]
+    have hword : ∀ L : List Nat, L = (if p ≠ 0 then a.set n (wshl w (wshr (a.getD n 0) p) p) else a) →
+        L.length = a.length ∧
+        ∀ i, L.getD i 0 = if i = n then wshl w (wshr (a.getD n 0) p) p else a.getD i 0 := by
+      intro L hL
+      by_cases c0 : p = 0
+      · have : ¬ p ≠ 0 := fun hh => hh c0
+        rw [if_neg this] at hL
+        subst hL
+        refine ⟨rfl, fun i => ?_⟩
+        by_cases c : i = n
+        · subst c
+          rw [if_pos rfl, c0]
+          simp only [wshl, wshr, Nat.pow_zero, Nat.div_one, Nat.mul_one]
+          exact (Nat.mod_eq_of_lt (getD_lt h _)).symm
+        · rw [if_neg c]
+      · rw [if_pos c0] at hL
+        subst hL
+        refine ⟨List.length_set, fun i => ?_⟩
+        rw [getD_set]
+        by_cases c : i = n
+        · simp [c, hi]
+        · simp [c]
+    obtain ⟨l1, g1⟩ := hword _ rfl
+    obtain ⟨t1, t2⟩ := trimLoLoop_spec n (if p ≠ 0 then a.set n (wshl w (wshr (a.getD n 0) p) p) else a)
+    refine ⟨by rw [t1, l1], ?_⟩
+    apply bits_to_val hw
+    · intro i
+      rw [t2 i, g1 i]
+      split
+      · exact Nat.two_pow_pos w
+      · split
+        · exact wshl_lt _ _ _
+        · exact getD_lt h _
+    · intro k
+      rw [t2, g1, spec_bits, testBit_val hw a h]
+      have hj : k % w < w := Nat.mod_lt _ hw
+      have hk : k = w * (k / w) + k % w := (Nat.div_add_mod k w).symm
+      generalize k / w = i at *
+      generalize k % w = j at *
+      by_cases c1 : i < n
+      · have : ¬ pos ≤ k := by
+          have : w * (i + 1) ≤ w * n := Nat.mul_le_mul_left w c1
+          rw [Nat.mul_add] at this; omega
+        rw [if_pos c1]; simp [this]
+      · rw [if_neg c1]
+        by_cases c2 : i = n
+        · subst c2
+          rw [if_pos rfl, testBit_wshl, tb_div]
+          by_cases c3 : p ≤ j
+          · have e : pos ≤ k := by omega
+            have e2 : p + (j - p) = j := by omega
+            simp [c3, e, e2, hj]
+          · have e : ¬ pos ≤ k := by omega
+            simp [c3, e]
+        · have : pos ≤ k := by
+            have : w * (n + 1) ≤ w * i := Nat.mul_le_mul_left w (by omega)
+            rw [Nat.mul_add] at this; omega
+          rw [if_neg c2]; simp [this]
+  · -- the whole array is cleared
+    have hz : (if n < a.length then trimLoLoop n (if p ≠ 0 then a.set n (wshl w (wshr (a.getD n 0) p) p) else a)
+        else if n > a.length then trimLoLoop a.length a else trimLoLoop n a)
+        = trimLoLoop (min n a.length) a := by
+      rw [if_neg hi]
+      split
+      · rw [Nat.min_eq_right (by omega)]
+      · rw [Nat.min_eq_left (by omega)]
+    rw [hz]
+    obtain ⟨t1, t2⟩ := trimLoLoop_spec (min n a.length) a
+    refine ⟨t1, ?_⟩
+    have hv : val w a / 2 ^ pos * 2 ^ pos = 0 := by
+      have h1 := val_lt a h
+      have h2 : 2 ^ (w * a.length) ≤ 2 ^ pos := by
+        apply Nat.pow_le_pow_right (by decide)
+        have := Nat.mul_le_mul_left w (Nat.le_of_not_lt hi)
+        omega
+      rw [Nat.div_eq_of_lt (by omega), Nat.zero_mul]
+    rw [hv]
+    apply bits_to_val hw
+    · intro i
+      rw [t2 i]
+      split
+      · exact Nat.two_pow_pos w
+      · exact getD_lt h _
+    · intro k
+      rw [t2, Nat.zero_testBit]
+      by_cases c : k / w < min n a.length
+      · rw [if_pos c, Nat.zero_testBit]
+      · rw [if_neg c, getD_beyond a _ (by omega), Nat.zero_testBit]
+
+
+
+/-! ## sizes -/
+
+/-- the scan from the top: `m` = index of the last non-zero word + 1 (0 if there is none) -/
+theorem wordSizeLoop_spec : ∀ (l : List Nat),
+    wwWordSizeLoop l ≤ l.length ∧
+    (∀ i, i < l.length - wwWordSizeLoop l → l.getD i 0 = 0) ∧
+    (0 < wwWordSizeLoop l → l.getD (l.length - wwWordSizeLoop l) 0 ≠ 0) := by
+  intro l
+  induction l with
+  | nil => simp [wwWordSizeLoop]
+  | cons x xs ih =>
+    simp only [wwWordSizeLoop]
+    by_cases hx : x = 0
+    · subst hx
+      obtain ⟨h1, h2, h3⟩ := ih
+      simp only [beq_self_eq_true, if_true, List.length_cons]
+      refine ⟨by omega, fun i hi => ?_, fun hm => ?_⟩
+      · cases i with
+        | zero => rfl
+        | succ i => simpa using h2 i (by omega)
+      · have e : xs.length + 1 - wwWordSizeLoop xs = (xs.length - wwWordSizeLoop xs) + 1 := by omega
+        rw [e]
+        simpa using h3 hm
+    · have hb : (x == 0) = false := by simp [hx]
+      simp only [hb, Bool.false_eq_true, if_false, List.length_cons, Nat.sub_self]
+      refine ⟨Nat.le_refl _, fun i hi => by omega, fun _ => by simpa using hx⟩
+
+theorem getD_reverse (a : List Nat) (i : Nat) (hi : i < a.length) :
+    a.reverse.getD i 0 = a.getD (a.length - 1 - i) 0 := by
+  rw [List.getD_eq_getElem?_getD, List.getD_eq_getElem?_getD, List.getElem?_reverse hi]
+
+theorem wwWordSize_spec' (a : List Nat) :
+    wwWordSize a ≤ a.length ∧
+    (∀ i, wwWordSize a ≤ i → a.getD i 0 = 0) ∧
+    (0 < wwWordSize a → a.getD (wwWordSize a - 1) 0 ≠ 0) := by
+  unfold wwWordSize
+  obtain ⟨h1, h2, h3⟩ := wordSizeLoop_spec a.reverse
+  rw [List.length_reverse] at h1 h2 h3
+  generalize wwWordSizeLoop a.reverse = m at *
+  refine ⟨h1, fun i hi => ?_, fun hm => ?_⟩
+  · by_cases c : i < a.length
+    · have := h2 (a.length - 1 - i) (by omega)
+      rw [getD_reverse a _ (by omega)] at this
+      have e : a.length - 1 - (a.length - 1 - i) = i := by omega
+      rw [e] at this; exact this
+    · exact getD_beyond a i (by omega)
+  · have := h3 hm
+    rw [getD_reverse a _ (by omega)] at this
+    have e : a.length - 1 - (a.length - m) = m - 1 := by omega
+    rw [e] at this; exact this
+
+/-- `c` = number of leading zeros of the non-zero word `x` -/
+def ClzOK (w : Nat) (clz : Nat → Nat) : Prop :=
+  ∀ x, 0 < x → x < 2 ^ w → clz x < w ∧ x / 2 ^ (w - 1 - clz x) = 1
+
+theorem wwBitSize_gen {w : Nat} (hw : 0 < w) (clz : Nat → Nat) (hclz : ClzOK w clz)
+    (a : List Nat) (h : Wf w a) :
+    wwBitSizeWith clz w a ≤ w * a.length ∧
+    val w a < 2 ^ wwBitSizeWith clz w a ∧
+    (0 < wwBitSizeWith clz w a → 2 ^ (wwBitSizeWith clz w a - 1) ≤ val w a) ∧
+    wwHiZeroBitsWith clz w a + wwBitSizeWith clz w a = w * a.length := by
+  obtain ⟨h1, h2, h3⟩ := wwWordSize_spec' a
+  unfold wwBitSizeWith wwHiZeroBitsWith
+  unfold wwWordSize at h1 h2 h3
+  simp only
+  generalize wwWordSizeLoop a.reverse = m at *
+  by_cases hm : m = 0
+  · subst hm
+    simp only [if_true, Nat.sub_self, Nat.pow_zero]
+    have hv : val w a = 0 := by
+      apply Nat.eq_of_testBit_eq; intro k
+      rw [testBit_val hw a h, h2 _ (Nat.zero_le _), Nat.zero_testBit, Nat.zero_testBit]
+    rw [hv, Nat.mul_comm]
+    exact ⟨Nat.zero_le _, Nat.one_pos, fun hh => absurd hh (Nat.lt_irrefl 0), by omega⟩
+  · have hmp : 0 < m := Nat.pos_of_ne_zero hm
+    have htop := h3 hmp
+    have hlt := getD_lt h (m - 1)
+    obtain ⟨c1, c2⟩ := hclz _ (Nat.pos_of_ne_zero htop) hlt
+    generalize clz (a.getD (m - 1) 0) = c at *
+    generalize htopv : a.getD (m - 1) 0 = top at *
+    simp only [hm, if_false]
+    have hmul : a.length * w = (a.length - m) * w + (m - 1) * w + w := by
+      have : a.length = (a.length - m) + (m - 1) + 1 := by omega
+      conv_lhs => rw [this]
+      rw [Nat.add_mul, Nat.add_mul, Nat.one_mul]
+    have hB : a.length * w - ((a.length - m) * w + c) = w * (m - 1) + (w - c) := by
+      rw [hmul, Nat.mul_comm w (m - 1)]; omega
+    rw [hB]
+    have hmw : w * (m - 1) + w ≤ w * a.length := by
+      have : w * m ≤ w * a.length := Nat.mul_le_mul_left w h1
+      have e : w * m = w * (m - 1) + w := by
+        have : m = (m - 1) + 1 := by omega
+        conv_lhs => rw [this]
+        rw [Nat.mul_add, Nat.mul_one]
+      omega
+    -- top / 2^(w-1-c) = 1 : bit w-1-c is set and no bit above it
+    have htb : top.testBit (w - 1 - c) = true := by
+      rw [Nat.testBit_eq_decide_div_mod_eq, c2]; rfl
+    have hhi : ∀ j, w - c ≤ j → top.testBit j = false := by
+      intro j hj
+      have : top < 2 ^ (w - c) := by
+        have e : 2 ^ (w - c) = 2 ^ (w - 1 - c) * 2 := by
+          rw [← Nat.pow_succ]; congr 1; omega
+        have := Nat.lt_of_div_lt_div (a := top) (b := 2 ^ (w - 1 - c) * 2) (c := 2 ^ (w - 1 - c)) (by
+          rw [c2, Nat.mul_div_cancel_left _ (Nat.two_pow_pos _)]; decide)
+        omega
+      exact testBit_high this hj
+    refine ⟨by omega, ?_, fun _ => ?_, ?_⟩
+    · apply Nat.lt_pow_two_of_testBit
+      intro k hk
+      rw [testBit_val hw a h]
+      have hj : k % w < w := Nat.mod_lt _ hw
+      have hkk : k = w * (k / w) + k % w := (Nat.div_add_mod k w).symm
+      generalize k / w = i at *
+      generalize k % w = j at *
+      by_cases ci : m ≤ i
+      · rw [h2 i ci, Nat.zero_testBit]
+      · have : i = m - 1 := by
+          by_contra hne
+          have : w * (i + 1) ≤ w * (m - 1) := Nat.mul_le_mul_left w (by omega)
+          rw [Nat.mul_add] at this; omega
+        subst this
+        rw [htopv]
+        exact hhi j (by omega)
+    · apply Nat.ge_two_pow_of_testBit
+      rw [testBit_val hw a h]
+      have e : w * (m - 1) + (w - c) - 1 = w * (m - 1) + (w - 1 - c) := by omega
+      obtain ⟨e1, e2⟩ := idx_lo hw (m - 1) (w - 1 - c) (by omega)
+      rw [e, e1, e2, htopv, htb]
+    · rw [Nat.mul_comm w a.length, hmul, Nat.mul_comm w (m - 1)]; omega
+
+
+theorem loZeroLoop_spec : ∀ (a : List Nat),
+    wwLoZeroLoop a ≤ a.length ∧ (∀ k, k < wwLoZeroLoop a → a.getD k 0 = 0) ∧
+    (wwLoZeroLoop a < a.length → a.getD (wwLoZeroLoop a) 0 ≠ 0) := by
+  intro a
+  induction a with
+  | nil => simp [wwLoZeroLoop]
+  | cons x xs ih =>
+    simp only [wwLoZeroLoop]
+    by_cases hx : x = 0
+    · subst hx
+      obtain ⟨h1, h2, h3⟩ := ih
+      simp only [beq_self_eq_true, if_true, List.length_cons]
+      refine ⟨by omega, fun k hk => ?_, fun hm => ?_⟩
+      · cases k with
+        | zero => rfl
+        | succ k => simpa using h2 k (by omega)
+      · simpa using h3 (by omega)
+    · have hb : (x == 0) = false := by simp [hx]
+      simp only [hb, Bool.false_eq_true, if_false, List.length_cons]
+      exact ⟨Nat.zero_le _, fun k hk => by omega, fun _ => by simpa using hx⟩
+
+/-- `ctz x` = number of trailing zeros of the non-zero word `x` -/
+def CtzOK (w : Nat) (ctz : Nat → Nat) : Prop :=
+  ∀ x, 0 < x → x < 2 ^ w → ctz x < w ∧ x % 2 ^ ctz x = 0 ∧ x / 2 ^ ctz x % 2 = 1
+
+theorem wwLoZeroBits_gen {w : Nat} (hw : 0 < w) (ctz : Nat → Nat) (hctz : CtzOK w ctz)
+    (a : List Nat) (h : Wf w a) :
+    wwLoZeroBitsWith ctz w a ≤ w * a.length ∧
+    (∀ k, k < wwLoZeroBitsWith ctz w a → (val w a).testBit k = false) ∧
+    (wwLoZeroBitsWith ctz w a < w * a.length →
+      (val w a).testBit (wwLoZeroBitsWith ctz w a) = true) := by
+  obtain ⟨h1, h2, h3⟩ := loZeroLoop_spec a
+  unfold wwLoZeroBitsWith
+  simp only
+  generalize wwLoZeroLoop a = i at *
+  by_cases hi : i = a.length
+  · rw [if_pos hi, Nat.mul_comm]
+    refine ⟨Nat.le_refl _, fun k hk => ?_, fun hh => absurd hh (Nat.lt_irrefl _)⟩
+    rw [testBit_val hw a h]
+    by_cases c : k / w < i
+    · rw [h2 _ c, Nat.zero_testBit]
+    · rw [getD_beyond a _ (by omega), Nat.zero_testBit]
+  · rw [if_neg hi]
+    have hil : i < a.length := by omega
+    have hne := h3 hil
+    obtain ⟨c1, c2, c3⟩ := hctz _ (Nat.pos_of_ne_zero hne) (getD_lt h i)
+    generalize ctz (a.getD i 0) = c at *
+    have hmw : w * i + w ≤ w * a.length := by
+      have : w * (i + 1) ≤ w * a.length := Nat.mul_le_mul_left w hil
+      rw [Nat.mul_add] at this; omega
+    rw [Nat.mul_comm i w]
+    refine ⟨by omega, fun k hk => ?_, fun _ => ?_⟩
+    · rw [testBit_val hw a h]
+      have hj : k % w < w := Nat.mod_lt _ hw
+      have hkk : k = w * (k / w) + k % w := (Nat.div_add_mod k w).symm
+      generalize k / w = i' at *
+      generalize k % w = j at *
+      by_cases ci : i' < i
+      · rw [h2 i' ci, Nat.zero_testBit]
+      · have : i' = i := by
+          by_contra hne'
+          have : w * (i + 1) ≤ w * i' := Nat.mul_le_mul_left w (by omega)
+          rw [Nat.mul_add] at this; omega
+        subst this
+        have hjc : j < c := by omega
+        have : (a.getD i' 0 % 2 ^ c).testBit j = false := by rw [c2]; exact Nat.zero_testBit _
+        rw [Nat.testBit_mod_two_pow] at this
+        simpa [hjc] using this
+    · rw [testBit_val hw a h]
+      obtain ⟨e1, e2⟩ := idx_lo hw i c c1
+      rw [e1, e2, Nat.testBit_eq_decide_div_mod_eq, c3]; rfl
+
+theorem ClzOK_of_spec {w : Nat} {clz : Nat → Nat} (h : ∀ x, x < 2 ^ w → ClzSpec w x (clz x)) :
+    ClzOK w clz := fun x hx hlt => (h x hlt).2 (by omega)
+theorem CtzOK_of_spec {w : Nat} {ctz : Nat → Nat} (h : ∀ x, x < 2 ^ w → CtzSpec w x (ctz x)) :
+    CtzOK w ctz := fun x hx hlt => (h x hlt).2 (by omega)
+
+
+/-! ## the 16-bit word helpers: complete enumeration -/
+
+/-! ### specifications of the word helpers (structural, width as a parameter) -/
+/-- bit-reversal of the low `k` bits: bit i goes to bit k-1-i -/
+def bitrevN : Nat → Nat → Nat | 0, _ => 0 | k+1, x => (x % 2) * 2^k + bitrevN k (x/2)
+/-- number of ones among the low `k` bits -/
+def popN : Nat → Nat → Nat | 0,_ => 0 | k+1, x => x % 2 + popN k (x/2)
+/-- interleave: bit i of `lo` goes to bit 2i, bit i of `hi` to bit 2i+1 (k bits each) -/
+def shufN : Nat → Nat → Nat → Nat | 0, _, _ => 0 | k+1, lo, hi => (lo % 2) + 2 * (hi % 2) + 4 * shufN k (lo/2) (hi/2)
+
+/-! ### kernel-friendly copies of the 16-bit models (raw `Nat.*` operations: the kernel evaluates
+these about ten times faster than the instance-wrapped notation); each is definitionally the model -/
+def k16Rev (w : Nat) : Nat := Nat.mod (Nat.lor (Nat.shiftLeft w 8) (Nat.shiftRight w 8)) 0x10000
+def k16Bitrev (w : Nat) : Nat :=
+  let w := Nat.mod (Nat.lor (Nat.land (Nat.shiftRight w 1) 0x5555) (Nat.shiftLeft (Nat.land w 0x5555) 1)) 0x10000
+  let w := Nat.mod (Nat.lor (Nat.land (Nat.shiftRight w 2) 0x3333) (Nat.shiftLeft (Nat.land w 0x3333) 2)) 0x10000
+  let w := Nat.mod (Nat.lor (Nat.land (Nat.shiftRight w 4) 0x0F0F) (Nat.shiftLeft (Nat.land w 0x0F0F) 4)) 0x10000
+  let w := Nat.mod (Nat.lor (Nat.shiftRight w 8) (Nat.shiftLeft w 8)) 0x10000
+  w
+def k16Weight (w : Nat) : Nat :=
+  let w := Nat.mod (Nat.add w (Nat.sub 0x10000 (Nat.land (Nat.shiftRight w 1) 0x5555))) 0x10000
+  let w := Nat.mod (Nat.add (Nat.land w 0x3333) (Nat.land (Nat.shiftRight w 2) 0x3333)) 0x10000
+  let w := Nat.mod (Nat.land (Nat.add w (Nat.shiftRight w 4)) 0x0F0F) 0x10000
+  let w := Nat.mod (Nat.add w (Nat.shiftRight w 8)) 0x10000
+  Nat.land w 0x001F
+def k16Parity (w : Nat) : Nat :=
+  let w := Nat.xor w (Nat.shiftRight w 1)
+  let w := Nat.xor w (Nat.shiftRight w 2)
+  let w := Nat.xor w (Nat.shiftRight w 4)
+  let w := Nat.xor w (Nat.shiftRight w 8)
+  Nat.land w 1
+def k16CTZ_safe (w : Nat) : Nat :=
+  Nat.mod (Nat.add 16 (Nat.sub 0x10000000000000000 (k16Weight (Nat.mod (Nat.lor w (Nat.mod (Nat.sub 0x10000 (Nat.mod w 0x10000)) 0x10000)) 0x10000)))) 0x10000000000000000
+def k16CLZ_safe (w : Nat) : Nat :=
+  let w := Nat.lor w (Nat.shiftRight w 1)
+  let w := Nat.lor w (Nat.shiftRight w 2)
+  let w := Nat.lor w (Nat.shiftRight w 4)
+  let w := Nat.lor w (Nat.shiftRight w 8)
+  k16Weight (Nat.mod (Nat.xor w 0xFFFF) 0x10000)
+def k16Shuffle (w : Nat) : Nat :=
+  let t := Nat.land (Nat.xor w (Nat.shiftRight w 4)) 0x00F0
+  let w := Nat.mod (Nat.xor w (Nat.xor t (Nat.shiftLeft t 4))) 0x10000
+  let t := Nat.land (Nat.xor w (Nat.shiftRight w 2)) 0x0C0C
+  let w := Nat.mod (Nat.xor w (Nat.xor t (Nat.shiftLeft t 2))) 0x10000
+  let t := Nat.land (Nat.xor w (Nat.shiftRight w 1)) 0x2222
+  let w := Nat.mod (Nat.xor w (Nat.xor t (Nat.shiftLeft t 1))) 0x10000
+  w
+def k16Deshuffle (w : Nat) : Nat :=
+  let t := Nat.land (Nat.xor w (Nat.shiftRight w 1)) 0x2222
+  let w := Nat.mod (Nat.xor w (Nat.xor t (Nat.shiftLeft t 1))) 0x10000
+  let t := Nat.land (Nat.xor w (Nat.shiftRight w 2)) 0x0C0C
+  let w := Nat.mod (Nat.xor w (Nat.xor t (Nat.shiftLeft t 2))) 0x10000
+  let t := Nat.land (Nat.xor w (Nat.shiftRight w 4)) 0x00F0
+  let w := Nat.mod (Nat.xor w (Nat.xor t (Nat.shiftLeft t 4))) 0x10000
+  w
+def k16Step (w ret : Nat) : Nat := Nat.mod (Nat.mul ret (Nat.add (Nat.mul w ret) 2)) 0x10000
+def k16NegInv (w : Nat) : Nat := k16Step w (k16Step w (k16Step w (k16Step w w)))
+
+theorem k16Rev_eq (w : Nat) : u16Rev w = k16Rev w := rfl
+theorem k16Bitrev_eq (w : Nat) : u16Bitrev w = k16Bitrev w := rfl
+theorem k16Weight_eq (w : Nat) : u16Weight w = k16Weight w := rfl
+theorem k16Parity_eq (w : Nat) : u16Parity w = k16Parity w := rfl
+theorem k16CTZ_safe_eq (w : Nat) : u16CTZ_safe w = k16CTZ_safe w := rfl
+theorem k16CLZ_safe_eq (w : Nat) : u16CLZ_safe w = k16CLZ_safe w := rfl
+theorem k16Shuffle_eq (w : Nat) : u16Shuffle w = k16Shuffle w := rfl
+theorem k16Deshuffle_eq (w : Nat) : u16Deshuffle w = k16Deshuffle w := rfl
+theorem k16NegInv_eq (w : Nat) : u16NegInv w = k16NegInv w := rfl
+
+def pop16K (x0 : Nat) : Nat :=
+  let x1 := Nat.div x0 2
+  let x2 := Nat.div x1 2
+  let x3 := Nat.div x2 2
+  let x4 := Nat.div x3 2
+  let x5 := Nat.div x4 2
+  let x6 := Nat.div x5 2
+  let x7 := Nat.div x6 2
+  let x8 := Nat.div x7 2
+  let x9 := Nat.div x8 2
+  let x10 := Nat.div x9 2
+  let x11 := Nat.div x10 2
+  let x12 := Nat.div x11 2
+  let x13 := Nat.div x12 2
+  let x14 := Nat.div x13 2
+  let x15 := Nat.div x14 2
+  Nat.add (Nat.mod x0 2) (Nat.add (Nat.mod x1 2) (Nat.add (Nat.mod x2 2) (Nat.add (Nat.mod x3 2) (Nat.add (Nat.mod x4 2) (Nat.add (Nat.mod x5 2) (Nat.add (Nat.mod x6 2) (Nat.add (Nat.mod x7 2) (Nat.add (Nat.mod x8 2) (Nat.add (Nat.mod x9 2) (Nat.add (Nat.mod x10 2) (Nat.add (Nat.mod x11 2) (Nat.add (Nat.mod x12 2) (Nat.add (Nat.mod x13 2) (Nat.add (Nat.mod x14 2) (Nat.add (Nat.mod x15 2) (0))))))))))))))))
+def brev16K (x0 : Nat) : Nat :=
+  let x1 := Nat.div x0 2
+  let x2 := Nat.div x1 2
+  let x3 := Nat.div x2 2
+  let x4 := Nat.div x3 2
+  let x5 := Nat.div x4 2
+  let x6 := Nat.div x5 2
+  let x7 := Nat.div x6 2
+  let x8 := Nat.div x7 2
+  let x9 := Nat.div x8 2
+  let x10 := Nat.div x9 2
+  let x11 := Nat.div x10 2
+  let x12 := Nat.div x11 2
+  let x13 := Nat.div x12 2
+  let x14 := Nat.div x13 2
+  let x15 := Nat.div x14 2
+  Nat.add (Nat.mul (Nat.mod x0 2) 32768) (Nat.add (Nat.mul (Nat.mod x1 2) 16384) (Nat.add (Nat.mul (Nat.mod x2 2) 8192) (Nat.add (Nat.mul (Nat.mod x3 2) 4096) (Nat.add (Nat.mul (Nat.mod x4 2) 2048) (Nat.add (Nat.mul (Nat.mod x5 2) 1024) (Nat.add (Nat.mul (Nat.mod x6 2) 512) (Nat.add (Nat.mul (Nat.mod x7 2) 256) (Nat.add (Nat.mul (Nat.mod x8 2) 128) (Nat.add (Nat.mul (Nat.mod x9 2) 64) (Nat.add (Nat.mul (Nat.mod x10 2) 32) (Nat.add (Nat.mul (Nat.mod x11 2) 16) (Nat.add (Nat.mul (Nat.mod x12 2) 8) (Nat.add (Nat.mul (Nat.mod x13 2) 4) (Nat.add (Nat.mul (Nat.mod x14 2) 2) (Nat.add (Nat.mul (Nat.mod x15 2) 1) (0))))))))))))))))
+def shuf16K (l0 h0 : Nat) : Nat :=
+  let l1 := Nat.div l0 2
+  let l2 := Nat.div l1 2
+  let l3 := Nat.div l2 2
+  let l4 := Nat.div l3 2
+  let l5 := Nat.div l4 2
+  let l6 := Nat.div l5 2
+  let l7 := Nat.div l6 2
+  let h1 := Nat.div h0 2
+  let h2 := Nat.div h1 2
+  let h3 := Nat.div h2 2
+  let h4 := Nat.div h3 2
+  let h5 := Nat.div h4 2
+  let h6 := Nat.div h5 2
+  let h7 := Nat.div h6 2
+  Nat.add (Nat.add (Nat.mod l0 2) (Nat.mul 2 (Nat.mod h0 2))) (Nat.mul 4 (Nat.add (Nat.add (Nat.mod l1 2) (Nat.mul 2 (Nat.mod h1 2))) (Nat.mul 4 (Nat.add (Nat.add (Nat.mod l2 2) (Nat.mul 2 (Nat.mod h2 2))) (Nat.mul 4 (Nat.add (Nat.add (Nat.mod l3 2) (Nat.mul 2 (Nat.mod h3 2))) (Nat.mul 4 (Nat.add (Nat.add (Nat.mod l4 2) (Nat.mul 2 (Nat.mod h4 2))) (Nat.mul 4 (Nat.add (Nat.add (Nat.mod l5 2) (Nat.mul 2 (Nat.mod h5 2))) (Nat.mul 4 (Nat.add (Nat.add (Nat.mod l6 2) (Nat.mul 2 (Nat.mod h6 2))) (Nat.mul 4 (Nat.add (Nat.add (Nat.mod l7 2) (Nat.mul 2 (Nat.mod h7 2))) (Nat.mul 4 (0))))))))))))))))
+
+theorem pop16K_eq (x : Nat) : popN 16 x = pop16K x := rfl
+theorem brev16K_eq (x : Nat) : bitrevN 16 x = brev16K x := by
+  simp only [bitrevN, brev16K]; rfl
+theorem shuf16K_eq (l h : Nat) : shufN 8 l h = shuf16K l h := rfl
+
+def k16CTZ_fast (w : Nat) : Nat :=
+  let l := 16
+  let t := Nat.mod (Nat.shiftLeft w 8) 0x10000
+  let (l, w) := if t ≠ 0 then (l - 8, t) else (l, w)
+  let t := Nat.mod (Nat.shiftLeft w 4) 0x10000
+  let (l, w) := if t ≠ 0 then (l - 4, t) else (l, w)
+  let t := Nat.mod (Nat.shiftLeft w 2) 0x10000
+  let (l, w) := if t ≠ 0 then (l - 2, t) else (l, w)
+  if Nat.mod (Nat.shiftLeft w 1) 0x10000 ≠ 0 then l - 2 else l - (if w ≠ 0 then 1 else 0)
+def k16CLZ_fast (w : Nat) : Nat :=
+  let l := 16
+  let t := Nat.shiftRight w 8
+  let (l, w) := if t ≠ 0 then (l - 8, t) else (l, w)
+  let t := Nat.shiftRight w 4
+  let (l, w) := if t ≠ 0 then (l - 4, t) else (l, w)
+  let t := Nat.shiftRight w 2
+  let (l, w) := if t ≠ 0 then (l - 2, t) else (l, w)
+  if Nat.shiftRight w 1 ≠ 0 then l - 2 else l - (if w ≠ 0 then 1 else 0)
+theorem raw_mod (a b : Nat) : Nat.mod a b = a % b := rfl
+theorem raw_shl (a b : Nat) : Nat.shiftLeft a b = a <<< b := rfl
+theorem raw_shr (a b : Nat) : Nat.shiftRight a b = a >>> b := rfl
+theorem k16CTZ_fast_eq (w : Nat) : u16CTZ_fast w = k16CTZ_fast w := by
+  simp only [u16CTZ_fast, k16CTZ_fast, raw_mod, raw_shl]
+theorem k16CLZ_fast_eq (w : Nat) : u16CLZ_fast w = k16CLZ_fast w := by
+  simp only [u16CLZ_fast, k16CLZ_fast, raw_shr]
+
+def ctzOk (x c : Nat) : Bool :=
+  bif Nat.beq x 0 then Nat.beq c 16
+  else (Nat.blt c 16 && Nat.beq (Nat.mod x (Nat.pow 2 c)) 0 &&
+    Nat.beq (Nat.mod (Nat.div x (Nat.pow 2 c)) 2) 1)
+def clzOk (x c : Nat) : Bool :=
+  bif Nat.beq x 0 then Nat.beq c 16
+  else (Nat.blt c 16 && Nat.beq (Nat.div x (Nat.pow 2 (Nat.sub 15 c))) 1)
+
+theorem ctzOk_spec {x c : Nat} (h : ctzOk x c = true) : CtzSpec 16 x c := by
+  unfold ctzOk at h
+  by_cases hx : x = 0
+  · subst hx
+    simp at h
+    exact ⟨fun _ => h, fun h0 => absurd rfl h0⟩
+  · have hb : Nat.beq x 0 = false := by
+      cases hb : Nat.beq x 0
+      · rfl
+      · exact absurd (Nat.eq_of_beq_eq_true hb) hx
+    rw [hb] at h
+    simp only [cond_false, Bool.and_eq_true, Nat.beq_eq_true_eq, Nat.blt_eq] at h
+    exact ⟨fun h0 => absurd h0 hx, fun _ => ⟨h.1.1, Nat.eq_of_beq_eq_true h.1.2, Nat.eq_of_beq_eq_true h.2⟩⟩
+
+theorem clzOk_spec {x c : Nat} (h : clzOk x c = true) : ClzSpec 16 x c := by
+  unfold clzOk at h
+  by_cases hx : x = 0
+  · subst hx
+    simp at h
+    exact ⟨fun _ => h, fun h0 => absurd rfl h0⟩
+  · have hb : Nat.beq x 0 = false := by
+      cases hb : Nat.beq x 0
+      · rfl
+      · exact absurd (Nat.eq_of_beq_eq_true hb) hx
+    rw [hb] at h
+    simp only [cond_false, Bool.and_eq_true, Nat.beq_eq_true_eq, Nat.blt_eq] at h
+    exact ⟨fun h0 => absurd h0 hx, fun _ => ⟨h.1, Nat.eq_of_beq_eq_true h.2⟩⟩
+
+/-- everything that is claimed about the 16-bit helpers at the point `x`, as one Boolean -/
+def chk16 (x : Nat) : Bool :=
+  Nat.beq (k16Rev x) (Nat.add (Nat.mul (Nat.mod x 256) 256) (Nat.div x 256)) &&
+  Nat.beq (k16Bitrev x) (brev16K x) &&
+  Nat.beq (k16Weight x) (pop16K x) &&
+  Nat.beq (k16Parity x) (Nat.mod (pop16K x) 2) &&
+  ctzOk x (k16CTZ_safe x) && ctzOk x (k16CTZ_fast x) &&
+  clzOk x (k16CLZ_safe x) && clzOk x (k16CLZ_fast x) &&
+  Nat.beq (k16Shuffle x) (shuf16K (Nat.mod x 256) (Nat.div x 256)) &&
+  Nat.beq (k16Deshuffle (k16Shuffle x)) x && Nat.beq (k16Shuffle (k16Deshuffle x)) x &&
+  (Nat.beq (Nat.mod x 2) 0 || Nat.beq (Nat.mod (Nat.add (Nat.mul (k16NegInv x) x) 1) 65536) 0)
+
+/-- `p` holds at lo, lo+1, …, lo+k-1 (the index is computed from literals, so that the kernel
+    evaluates `p` at a literal) -/
+def allRange (p : Nat → Bool) : Nat → Nat → Bool
+  | _, 0 => true
+  | lo, k+1 => p (lo + k) && allRange p lo k
+
+theorem allRange_spec {p : Nat → Bool} {lo k : Nat} (h : allRange p lo k = true) :
+    ∀ x, lo ≤ x → x < lo + k → p x = true := by
+  induction k with
+  | zero => intro x h1 h2; omega
+  | succ k ih =>
+    intro x h1 h2
+    simp only [allRange, Bool.and_eq_true] at h
+    by_cases hx : x = lo + k
+    · rw [hx]; exact h.1
+    · exact ih h.2 x h1 (by omega)
+
+/-! complete enumeration of the 65536 values of a 16-bit word, in 16 chunks checked by the kernel -/
+set_option maxRecDepth 100000 in
+theorem chk16_c0 : allRange chk16 0 4096 = true := by decide +kernel
+set_option maxRecDepth 100000 in
+theorem chk16_c1 : allRange chk16 4096 4096 = true := by decide +kernel
+set_option maxRecDepth 100000 in
+theorem chk16_c2 : allRange chk16 8192 4096 = true := by decide +kernel
+set_option maxRecDepth 100000 in
+theorem chk16_c3 : allRange chk16 12288 4096 = true := by decide +kernel
+set_option maxRecDepth 100000 in
+theorem chk16_c4 : allRange chk16 16384 4096 = true := by decide +kernel
+set_option maxRecDepth 100000 in
+theorem chk16_c5 : allRange chk16 20480 4096 = true := by decide +kernel
+set_option maxRecDepth 100000 in
+theorem chk16_c6 : allRange chk16 24576 4096 = true := by decide +kernel
+set_option maxRecDepth 100000 in
+theorem chk16_c7 : allRange chk16 28672 4096 = true := by decide +kernel
+set_option maxRecDepth 100000 in
+theorem chk16_c8 : allRange chk16 32768 4096 = true := by decide +kernel
+set_option maxRecDepth 100000 in
+theorem chk16_c9 : allRange chk16 36864 4096 = true := by decide +kernel
+set_option maxRecDepth 100000 in
+theorem chk16_c10 : allRange chk16 40960 4096 = true := by decide +kernel
+set_option maxRecDepth 100000 in
+theorem chk16_c11 : allRange chk16 45056 4096 = true := by decide +kernel
+set_option maxRecDepth 100000 in
+theorem chk16_c12 : allRange chk16 49152 4096 = true := by decide +kernel
+set_option maxRecDepth 100000 in
+theorem chk16_c13 : allRange chk16 53248 4096 = true := by decide +kernel
+set_option maxRecDepth 100000 in
+theorem chk16_c14 : allRange chk16 57344 4096 = true := by decide +kernel
+set_option maxRecDepth 100000 in
+theorem chk16_c15 : allRange chk16 61440 4096 = true := by decide +kernel
+
+theorem chk16_all (x : Nat) (hx : x < 65536) : chk16 x = true := by
+  by_cases h0 : x < 4096
+  · exact allRange_spec chk16_c0 x (by omega) (by omega)
+  by_cases h1 : x < 8192
+  · exact allRange_spec chk16_c1 x (by omega) (by omega)
+  by_cases h2 : x < 12288
+  · exact allRange_spec chk16_c2 x (by omega) (by omega)
+  by_cases h3 : x < 16384
+  · exact allRange_spec chk16_c3 x (by omega) (by omega)
+  by_cases h4 : x < 20480
+  · exact allRange_spec chk16_c4 x (by omega) (by omega)
+  by_cases h5 : x < 24576
+  · exact allRange_spec chk16_c5 x (by omega) (by omega)
+  by_cases h6 : x < 28672
+  · exact allRange_spec chk16_c6 x (by omega) (by omega)
+  by_cases h7 : x < 32768
+  · exact allRange_spec chk16_c7 x (by omega) (by omega)
+  by_cases h8 : x < 36864
+  · exact allRange_spec chk16_c8 x (by omega) (by omega)
+  by_cases h9 : x < 40960
+  · exact allRange_spec chk16_c9 x (by omega) (by omega)
+  by_cases h10 : x < 45056
+  · exact allRange_spec chk16_c10 x (by omega) (by omega)
+  by_cases h11 : x < 49152
+  · exact allRange_spec chk16_c11 x (by omega) (by omega)
+  by_cases h12 : x < 53248
+  · exact allRange_spec chk16_c12 x (by omega) (by omega)
+  by_cases h13 : x < 57344
+  · exact allRange_spec chk16_c13 x (by omega) (by omega)
+  by_cases h14 : x < 61440
+  · exact allRange_spec chk16_c14 x (by omega) (by omega)
+  by_cases h15 : x < 65536
+  · exact allRange_spec chk16_c15 x (by omega) (by omega)
+  omega
+
+/-- the conjuncts of `chk16`, in terms of the models and the structural specifications -/
+theorem chk16_unpack {x : Nat} (h : chk16 x = true) :
+    u16Rev x = (x % 256) * 256 + x / 256 ∧ u16Bitrev x = bitrevN 16 x ∧
+    u16Weight x = popN 16 x ∧ u16Parity x = popN 16 x % 2 ∧
+    CtzSpec 16 x (u16CTZ_safe x) ∧ CtzSpec 16 x (u16CTZ_fast x) ∧
+    ClzSpec 16 x (u16CLZ_safe x) ∧ ClzSpec 16 x (u16CLZ_fast x) ∧
+    u16Shuffle x = shufN 8 (x % 256) (x / 256) ∧
+    u16Deshuffle (u16Shuffle x) = x ∧ u16Shuffle (u16Deshuffle x) = x ∧
+    (x % 2 = 1 → (u16NegInv x * x + 1) % 65536 = 0) := by
+  simp only [chk16, Bool.and_eq_true, Bool.or_eq_true, Nat.beq_eq_true_eq] at h
+  obtain ⟨⟨⟨⟨⟨⟨⟨⟨⟨⟨⟨h1, h2⟩, h3⟩, h4⟩, h5⟩, h6⟩, h7⟩, h8⟩, h9⟩, h10⟩, h11⟩, h12⟩ := h
+  rw [k16Rev_eq, k16Bitrev_eq, k16Weight_eq, k16Parity_eq, k16CTZ_safe_eq, k16CTZ_fast_eq,
+    k16CLZ_safe_eq, k16CLZ_fast_eq, k16Shuffle_eq, k16Deshuffle_eq, k16NegInv_eq,
+    pop16K_eq, brev16K_eq, shuf16K_eq]
+  have e := @Nat.eq_of_beq_eq_true
+  refine ⟨e h1, e h2, e h3, e h4, ctzOk_spec h5, ctzOk_spec h6, clzOk_spec h7, clzOk_spec h8,
+    e h9, e h10, e h11, ?_⟩
+  intro hodd
+  rcases h12 with h12 | h12
+  · have : x % 2 = 0 := e h12
+    omega
+  · exact e h12
+
 
 end Bee2V.C05
